@@ -1,8 +1,10 @@
 import NLV.Model.Trace
 import NLV.Lemmas.Registrars
-/-! Helper lemmas for model D1 (the event-emitting trace pipeline): a case analysis of `step` into a per-trace local
-transition (`Local`) plus the creation of a new trace (`addTrace`), and the invariants of reachable states:
-`TrInv` (trace numbers), `IdInv` (thread/task numbers), `WInv` (simulation by the registrars' grammar), `NumInv` (counters). -/
+/-! Helper lemmas for model D1 (the event-emitting trace pipeline, numbers drawn in hidden steps and emitted later): a case
+analysis of `step` into a per-trace local transition (`Local`, at most one event), the creation of a newcomer
+(`addNewcomer`), the move of a newcomer into `traces` (`moveNewcomer`), or a no-op; and the invariants of reachable states:
+`TrInv` (trace numbers, newcomers), `IdInv` (thread/task numbers of traces and newcomers), `NumInv` (numbers held by a
+phase vs. numbers in the stream), `WInv` (simulation by the registrars' grammar). -/
 namespace NLV.Trace
 open NLV.Reg
 
@@ -11,6 +13,12 @@ open NLV.Reg
 def callNos (o : List Ev) : List Nat := o.filterMap fun | .startCall _ c => some c.callNo | _ => none
 def promptNos (o : List Ev) : List Nat := o.filterMap fun | .startPrompt _ _ p _ => some p | _ => none
 def traceNos (o : List Ev) : List Nat := o.filterMap fun | .startTrace t _ _ => some t | _ => none
+/-- call numbers of the start-call events of trace `t`, in stream order -/
+def callNosOf (t : Nat) (o : List Ev) : List Nat :=
+  o.filterMap fun | .startCall t' c => if t' = t then some c.callNo else none | _ => none
+/-- prompt numbers of the start-prompt events of trace `t`, in stream order -/
+def promptNosOf (t : Nat) (o : List Ev) : List Nat :=
+  o.filterMap fun | .startPrompt t' _ p _ => if t' = t then some p else none | _ => none
 /-- the trace number an event carries -/
 def evTrace : Ev → Nat
   | .startTrace t _ _ | .endTrace t | .startCall t _ | .endCall t _ | .startCmdloop t _ | .endCmdloop t _
@@ -246,32 +254,41 @@ theorem nodup_map_inj {α β : Type} {f : α → β} {l : List α} (h : (l.map f
     · exact absurd hab (h.1 a ha)
     · exact ih h.2 ha hb
 
-/-! ### `step` as: (create the trace) ; (local transition of the entity's trace) -/
+theorem newEvents_of_out {s s' : St} {l : List Ev} (h : s'.out = s.out ++ l) : newEvents s s' = l := by
+  simp only [newEvents, h, List.drop_left]
 
-/-- thread number and task number a new trace of `e` gets -/
+/-! ### `step` as: a local transition of the entity's trace, the creation of a newcomer, its move into `traces`, or a no-op -/
+
+/-- thread number and task number a newcomer `e` gets -/
 def newThreadNo (s : St) (e : Ent) : Nat := (threadNoOf s e.thread).1
 def newTaskNo (s : St) (e : Ent) : Option Nat :=
   match e.task with
   | none => none
   | some _ => some (taskNoOf (threadNoOf s e.thread).2 (threadNoOf s e.thread).1).1
-/-- the state after the thread/task numbering of a new trace of `e` -/
-def numbered (s : St) (e : Ent) : St :=
+/-- the state after the thread/task numbering of `e` -/
+def idState (s : St) (e : Ent) : St :=
   match e.task with
   | none => (threadNoOf s e.thread).2
   | some _ => (taskNoOf (threadNoOf s e.thread).2 (threadNoOf s e.thread).1).2
 
-def newTrace (s : St) (e : Ent) : TraceSt :=
-  { ent := e, traceNo := s.nextTrace, threadNo := newThreadNo s e, taskNo := newTaskNo s e }
+def newNewcomer (s : St) (e : Ent) : Newcomer := { ent := e, threadNo := newThreadNo s e, taskNo := newTaskNo s e }
 
-/-- the first event of an entity: number it, emit `OnStartTrace` -/
-def addTrace (s : St) (e : Ent) : St :=
-  { numbered s e with traces := s.traces ++ [newTrace s e], nextTrace := s.nextTrace + 1,
-                      out := s.out ++ [.startTrace s.nextTrace (newThreadNo s e) (newTaskNo s e)] }
+/-- `drawIds`: number the thread / task, remember the entity as a newcomer -/
+def addNewcomer (s : St) (e : Ent) : St := { idState s e with newcomers := s.newcomers ++ [newNewcomer s e] }
+
+def mkTrace (s : St) (e : Ent) (n : Newcomer) : TraceSt :=
+  { ent := e, traceNo := s.nextTrace, threadNo := n.threadNo, taskNo := n.taskNo }
+
+/-- `drawTrace`: the newcomer gets its trace number -/
+def moveNewcomer (s : St) (e : Ent) (n : Newcomer) : St :=
+  { s with newcomers := s.newcomers.filter (fun x => x.ent ≠ e), traces := s.traces ++ [mkTrace s e n],
+           nextTrace := s.nextTrace + 1 }
 
 theorem threadNoOf_frame (s : St) (th : Nat) :
     (threadNoOf s th).2.traces = s.traces ∧ (threadNoOf s th).2.nextTrace = s.nextTrace ∧
     (threadNoOf s th).2.nextCall = s.nextCall ∧ (threadNoOf s th).2.nextPrompt = s.nextPrompt ∧
-    (threadNoOf s th).2.out = s.out ∧ (threadNoOf s th).2.taskCounters = s.taskCounters := by
+    (threadNoOf s th).2.out = s.out ∧ (threadNoOf s th).2.taskCounters = s.taskCounters ∧
+    (threadNoOf s th).2.newcomers = s.newcomers := by
   unfold threadNoOf
   split <;> simp
 
@@ -279,116 +296,156 @@ theorem taskNoOf_frame (s : St) (tn : Nat) :
     (taskNoOf s tn).2.traces = s.traces ∧ (taskNoOf s tn).2.nextTrace = s.nextTrace ∧
     (taskNoOf s tn).2.nextCall = s.nextCall ∧ (taskNoOf s tn).2.nextPrompt = s.nextPrompt ∧
     (taskNoOf s tn).2.out = s.out ∧ (taskNoOf s tn).2.threadNos = s.threadNos ∧
-    (taskNoOf s tn).2.nextThreadNo = s.nextThreadNo := by
+    (taskNoOf s tn).2.nextThreadNo = s.nextThreadNo ∧ (taskNoOf s tn).2.newcomers = s.newcomers := by
   unfold taskNoOf
   split <;> simp
 
-theorem numbered_frame (s : St) (e : Ent) :
-    (numbered s e).traces = s.traces ∧ (numbered s e).nextTrace = s.nextTrace ∧
-    (numbered s e).nextCall = s.nextCall ∧ (numbered s e).nextPrompt = s.nextPrompt ∧ (numbered s e).out = s.out := by
-  unfold numbered
+theorem idState_frame (s : St) (e : Ent) :
+    (idState s e).traces = s.traces ∧ (idState s e).nextTrace = s.nextTrace ∧
+    (idState s e).nextCall = s.nextCall ∧ (idState s e).nextPrompt = s.nextPrompt ∧ (idState s e).out = s.out ∧
+    (idState s e).newcomers = s.newcomers := by
+  unfold idState
   have h1 := threadNoOf_frame s e.thread
   split
-  · exact ⟨h1.1, h1.2.1, h1.2.2.1, h1.2.2.2.1, h1.2.2.2.2.1⟩
+  · exact ⟨h1.1, h1.2.1, h1.2.2.1, h1.2.2.2.1, h1.2.2.2.2.1, h1.2.2.2.2.2.2⟩
   · have h2 := taskNoOf_frame (threadNoOf s e.thread).2 (threadNoOf s e.thread).1
     exact ⟨h2.1.trans h1.1, h2.2.1.trans h1.2.1, h2.2.2.1.trans h1.2.2.1, h2.2.2.2.1.trans h1.2.2.2.1,
-      h2.2.2.2.2.1.trans h1.2.2.2.2.1⟩
+      h2.2.2.2.2.1.trans h1.2.2.2.2.1, h2.2.2.2.2.2.2.2.trans h1.2.2.2.2.2.2⟩
 
-@[simp] theorem addTrace_traces (s : St) (e : Ent) : (addTrace s e).traces = s.traces ++ [newTrace s e] := rfl
-@[simp] theorem addTrace_nextTrace (s : St) (e : Ent) : (addTrace s e).nextTrace = s.nextTrace + 1 := rfl
-@[simp] theorem addTrace_out (s : St) (e : Ent) :
-    (addTrace s e).out = s.out ++ [.startTrace s.nextTrace (newThreadNo s e) (newTaskNo s e)] := rfl
-@[simp] theorem addTrace_nextCall (s : St) (e : Ent) : (addTrace s e).nextCall = s.nextCall := (numbered_frame s e).2.2.1
-@[simp] theorem addTrace_nextPrompt (s : St) (e : Ent) : (addTrace s e).nextPrompt = s.nextPrompt :=
-  (numbered_frame s e).2.2.2.1
+@[simp] theorem addNewcomer_traces (s : St) (e : Ent) : (addNewcomer s e).traces = s.traces := (idState_frame s e).1
+@[simp] theorem addNewcomer_nextTrace (s : St) (e : Ent) : (addNewcomer s e).nextTrace = s.nextTrace :=
+  (idState_frame s e).2.1
+@[simp] theorem addNewcomer_nextCall (s : St) (e : Ent) : (addNewcomer s e).nextCall = s.nextCall :=
+  (idState_frame s e).2.2.1
+@[simp] theorem addNewcomer_nextPrompt (s : St) (e : Ent) : (addNewcomer s e).nextPrompt = s.nextPrompt :=
+  (idState_frame s e).2.2.2.1
+@[simp] theorem addNewcomer_out (s : St) (e : Ent) : (addNewcomer s e).out = s.out := (idState_frame s e).2.2.2.2.1
+@[simp] theorem addNewcomer_newcomers (s : St) (e : Ent) :
+    (addNewcomer s e).newcomers = s.newcomers ++ [newNewcomer s e] := rfl
 
-/-- the local transition of one trace: `Local t nc np ph a ph' ended' evs nc' np'` — in phase `ph`, with counters `nc`
-(trace calls) and `np` (prompts), action `a` leads to phase `ph'` and ended flag `ended'`, emits `evs`, and leaves the
-counters at `nc'`, `np'` -/
-inductive Local (t nc np : Nat) : Phase → Act → Phase → Bool → List Ev → Nat → Nat → Prop
-  | enter (f l fr ev : Nat) :
-      Local t nc np .idle (.enter f l fr ev) (.call ⟨nc, f, l, fr, ev⟩) false [.startCall t ⟨nc, f, l, fr, ev⟩] (nc + 1) np
-  | stop (c : CallInfo) : Local t nc np (.call c) .stop (.cmdloop c false) false [.startCmdloop t c.callNo] nc np
-  | prompt (c : CallInfo) (b : Bool) (text : Nat) :
-      Local t nc np (.cmdloop c b) (.prompt text) (.prompt c np) false [.startPrompt t c.callNo np text] nc (np + 1)
-  | answerT (c : CallInfo) (p cmd : Nat) :
-      Local t nc np (.prompt c p) (.answer cmd true) (.call c) false [.endPrompt t p cmd, .endCmdloop t c.callNo] nc np
-  | answerF (c : CallInfo) (p cmd : Nat) :
-      Local t nc np (.prompt c p) (.answer cmd false) (.cmdloop c true) false [.endPrompt t p cmd] nc np
-  | leave (c : CallInfo) : Local t nc np (.call c) .leave .idle false [.endCall t c.callNo] nc np
-  | abort (ph : Phase) (h : ph ≠ .idle) : Local t nc np ph .abort .idle false (unwind t ph) nc np
-  | finish : Local t nc np .idle .finish .idle true [.endTrace t] nc np
+/-- the local transition of one trace: `Local t thn tkn nc np ph a ph' ended' evs nc' np'` — in phase `ph`, with counters
+`nc` (trace calls) and `np` (prompts), action `a` leads to phase `ph'` and ended flag `ended'`, emits `evs` (at most one
+event), and leaves the counters at `nc'`, `np'` -/
+inductive Local (t thn : Nat) (tkn : Option Nat) (nc np : Nat) : Phase → Act → Phase → Bool → List Ev → Nat → Nat → Prop
+  | emitStart : Local t thn tkn nc np .numbered .emitStart .idle false [.startTrace t thn tkn] nc np
+  | drawCall (f l fr ev : Nat) :
+      Local t thn tkn nc np .idle (.drawCall f l fr ev) (.callDrawn ⟨nc, f, l, fr, ev⟩) false [] (nc + 1) np
+  | emitCall (c : CallInfo) : Local t thn tkn nc np (.callDrawn c) .emitCall (.call c) false [.startCall t c] nc np
+  | stop (c : CallInfo) : Local t thn tkn nc np (.call c) .stop (.cmdloop c) false [.startCmdloop t c.callNo] nc np
+  | drawPrompt (c : CallInfo) : Local t thn tkn nc np (.cmdloop c) .drawPrompt (.promptDrawn c np) false [] nc (np + 1)
+  | emitPrompt (c : CallInfo) (p text : Nat) :
+      Local t thn tkn nc np (.promptDrawn c p) (.emitPrompt text) (.prompt c p) false [.startPrompt t c.callNo p text] nc np
+  | answer (c : CallInfo) (p cmd : Nat) :
+      Local t thn tkn nc np (.prompt c p) (.answer cmd) (.cmdloop c) false [.endPrompt t p cmd] nc np
+  | endLoop (c : CallInfo) : Local t thn tkn nc np (.cmdloop c) .endLoop (.call c) false [.endCmdloop t c.callNo] nc np
+  | endLoopD (c : CallInfo) (p : Nat) :
+      Local t thn tkn nc np (.promptDrawn c p) .endLoop (.call c) false [.endCmdloop t c.callNo] nc np
+  | leave (c : CallInfo) : Local t thn tkn nc np (.call c) .leave .idle false [.endCall t c.callNo] nc np
+  | finish : Local t thn tkn nc np .idle .finish .idle true [.endTrace t] nc np
 
-/-- `s' ` results from `s` by a local transition of the live trace of `e` -/
+/-- `s'` results from `s` by a local transition of the live trace of `e` -/
 def LStep (s : St) (e : Ent) (a : Act) (s' : St) : Prop :=
   ∃ tr ph' en' evs nc' np', findTrace s.traces e = some tr ∧
-    Local tr.traceNo s.nextCall s.nextPrompt tr.phase a ph' en' evs nc' np' ∧
+    Local tr.traceNo tr.threadNo tr.taskNo s.nextCall s.nextPrompt tr.phase a ph' en' evs nc' np' ∧
     s' = { s with traces := setTrace s.traces { tr with phase := ph', ended := en' }, nextCall := nc', nextPrompt := np',
                   out := s.out ++ evs }
 
-theorem step_enter_some {s : St} {e : Ent} {tr : TraceSt} (hf : findTrace s.traces e = some tr) (f l fr ev : Nat) :
-    step s e (.enter f l fr ev) =
-      match tr.phase with
-      | .idle => some { s with traces := setTrace s.traces { tr with phase := .call ⟨s.nextCall, f, l, fr, ev⟩ },
-                               nextCall := s.nextCall + 1, out := s.out ++ [.startCall tr.traceNo ⟨s.nextCall, f, l, fr, ev⟩] }
-      | _ => none := by
-  simp only [step, hf]
-  obtain ⟨_, _, _, _, ph, _⟩ := tr
-  cases ph <;> rfl
+theorem findNewcomer_some {ns : List Newcomer} {e : Ent} {n : Newcomer} (h : findNewcomer ns e = some n) :
+    n ∈ ns ∧ n.ent = e := by
+  have h1 := List.find?_some h
+  exact ⟨List.mem_of_find?_eq_some h, by simpa using h1⟩
 
-theorem step_enter_none {s : St} {e : Ent} (hf : findTrace s.traces e = none) (f l fr ev : Nat) :
-    step s e (.enter f l fr ev) =
-      some { addTrace s e with
-        traces := setTrace (addTrace s e).traces
-          { newTrace s e with phase := .call ⟨(addTrace s e).nextCall, f, l, fr, ev⟩, ended := false },
-        nextCall := (addTrace s e).nextCall + 1, nextPrompt := (addTrace s e).nextPrompt,
-        out := (addTrace s e).out ++ [.startCall (newTrace s e).traceNo ⟨(addTrace s e).nextCall, f, l, fr, ev⟩] } := by
+theorem findNewcomer_none {ns : List Newcomer} {e : Ent} (h : findNewcomer ns e = none) : ∀ n ∈ ns, n.ent ≠ e := by
+  intro n hn
+  have := List.find?_eq_none.mp h n hn
+  simpa using this
+
+theorem step_drawIds {s : St} {e : Ent} (hf : findTrace s.traces e = none) (hn : findNewcomer s.newcomers e = none) :
+    step s e .drawIds = some (addNewcomer s e) := by
   obtain ⟨th, ta⟩ := e
   have h1 := threadNoOf_frame s th
   cases ta with
   | none =>
-    simp only [step, hf]
-    simp [addTrace, newTrace, numbered, newTaskNo, newThreadNo, h1]
+    simp only [step, hf, hn]
+    simp [addNewcomer, newNewcomer, idState, newTaskNo, newThreadNo, h1]
   | some k =>
     have h2 := taskNoOf_frame (threadNoOf s th).2 (threadNoOf s th).1
-    simp only [step, hf]
-    simp [addTrace, newTrace, numbered, newTaskNo, newThreadNo, h1, h2]
+    simp only [step, hf, hn]
+    simp [addNewcomer, newNewcomer, idState, newTaskNo, newThreadNo, h1, h2]
 
-/-- every enabled action is: a local transition of the entity's live trace; or the creation of its trace followed by the
-local `enter`; or a no-op (`stopRefused`, or `write` without a trace); or a `write` of a traced entity -/
+theorem step_drawIds_isSome (s : St) (e : Ent) :
+    (step s e .drawIds).isSome = ((findTrace s.traces e).isNone && (findNewcomer s.newcomers e).isNone) := by
+  cases hf : findTrace s.traces e with
+  | some tr => simp [step, hf]
+  | none =>
+    cases hn : findNewcomer s.newcomers e with
+    | some n => simp [step, hf, hn]
+    | none => rw [step_drawIds hf hn]; rfl
+
+/-- every enabled action is: a local transition of the entity's live trace; the numbering of a newcomer; the move of a
+newcomer into `traces`; a no-op (`stopRefused`, or `write` without a trace); or a `write` of a traced entity -/
 theorem step_cases {s : St} {e : Ent} {a : Act} {s' : St} (h : step s e a = some s') :
     LStep s e a s'
-    ∨ (findTrace s.traces e = none ∧ (∃ f l fr ev, a = .enter f l fr ev) ∧ LStep (addTrace s e) e a s')
+    ∨ (a = .drawIds ∧ findTrace s.traces e = none ∧ findNewcomer s.newcomers e = none ∧ s' = addNewcomer s e)
+    ∨ (a = .drawTrace ∧ ∃ n, findNewcomer s.newcomers e = some n ∧ s' = moveNewcomer s e n)
     ∨ (s' = s ∧ a = .stopRefused ∧ ∃ tr, findTrace s.traces e = some tr ∧ tr.phase = .idle)
     ∨ (s' = s ∧ findTrace s.traces e = none ∧ (a = .stopRefused ∨ ∃ t, a = .write t))
     ∨ (∃ tr text, findTrace s.traces e = some tr ∧ a = .write text ∧
         s' = { s with out := s.out ++ [.stdout tr.traceNo text] }) := by
+  by_cases hids : a = .drawIds
+  · subst hids
+    have hs := step_drawIds_isSome s e
+    rw [h] at hs
+    cases hf : findTrace s.traces e with
+    | some tr => simp [hf] at hs
+    | none =>
+      cases hn : findNewcomer s.newcomers e with
+      | some n => simp [hf, hn] at hs
+      | none =>
+        rw [step_drawIds hf hn] at h
+        injection h with h
+        exact Or.inr (Or.inl ⟨rfl, rfl, rfl, h.symm⟩)
+  by_cases htr : a = .drawTrace
+  · subst htr
+    cases hn : findNewcomer s.newcomers e with
+    | none => simp [step, hn] at h
+    | some n =>
+      simp only [step, hn, Option.some.injEq] at h
+      exact Or.inr (Or.inr (Or.inl ⟨rfl, n, rfl, h.symm⟩))
   cases hf : findTrace s.traces e with
   | none =>
     cases a with
-    | enter f l fr ev =>
-      rw [step_enter_none hf] at h
-      injection h with h
-      subst h
-      refine Or.inr (Or.inl ⟨rfl, ⟨_, _, _, _, rfl⟩, newTrace s e, _, _, _, _, _, ?_, Local.enter f l fr ev, rfl⟩)
-      exact findTrace_append_new hf rfl rfl
+    | drawIds => exact absurd rfl hids
+    | drawTrace => exact absurd rfl htr
     | stopRefused =>
       simp only [step, hf, Option.some.injEq] at h
-      exact Or.inr (Or.inr (Or.inr (Or.inl ⟨h.symm, rfl, Or.inl rfl⟩)))
+      exact Or.inr (Or.inr (Or.inr (Or.inr (Or.inl ⟨h.symm, rfl, Or.inl rfl⟩))))
     | write t =>
       simp only [step, hf, Option.some.injEq] at h
-      exact Or.inr (Or.inr (Or.inr (Or.inl ⟨h.symm, rfl, Or.inr ⟨t, rfl⟩⟩)))
+      exact Or.inr (Or.inr (Or.inr (Or.inr (Or.inl ⟨h.symm, rfl, Or.inr ⟨t, rfl⟩⟩))))
     | _ => simp [step, hf] at h
   | some tr =>
     obtain ⟨hm, he, hen⟩ := findTrace_some hf
     obtain ⟨ent, no, thn, tkn, ph, en⟩ := tr
     simp only at hen; subst hen
     cases a with
-    | enter f l fr ev =>
-      rw [step_enter_some hf] at h
+    | drawIds => exact absurd rfl hids
+    | drawTrace => exact absurd rfl htr
+    | emitStart =>
+      simp only [step, hf] at h
       cases ph <;> simp only [Option.some.injEq, reduceCtorEq] at h
       subst h
-      exact Or.inl ⟨_, _, _, _, _, _, hf, Local.enter f l fr ev, rfl⟩
+      exact Or.inl ⟨_, _, _, _, _, _, hf, Local.emitStart, rfl⟩
+    | drawCall f l fr ev =>
+      simp only [step, hf] at h
+      cases ph <;> simp only [Option.some.injEq, reduceCtorEq] at h
+      subst h
+      exact Or.inl ⟨_, _, _, _, _, _, hf, Local.drawCall f l fr ev, by simp⟩
+    | emitCall =>
+      simp only [step, hf] at h
+      cases ph <;> simp only [Option.some.injEq, reduceCtorEq] at h
+      subst h
+      exact Or.inl ⟨_, _, _, _, _, _, hf, Local.emitCall _, rfl⟩
     | stop =>
       simp only [step, hf] at h
       cases ph <;> simp only [Option.some.injEq, reduceCtorEq] at h
@@ -397,27 +454,32 @@ theorem step_cases {s : St} {e : Ent} {a : Act} {s' : St} (h : step s e a = some
     | stopRefused =>
       simp only [step, hf] at h
       cases ph <;> simp only [Option.some.injEq, reduceCtorEq] at h
-      exact Or.inr (Or.inr (Or.inl ⟨h.symm, rfl, _, rfl, rfl⟩))
-    | prompt text =>
+      exact Or.inr (Or.inr (Or.inr (Or.inl ⟨h.symm, rfl, _, rfl, rfl⟩)))
+    | drawPrompt =>
       simp only [step, hf] at h
       cases ph <;> simp only [Option.some.injEq, reduceCtorEq] at h
       subst h
-      exact Or.inl ⟨_, _, _, _, _, _, hf, Local.prompt _ _ text, rfl⟩
-    | answer cmd resumes =>
+      exact Or.inl ⟨_, _, _, _, _, _, hf, Local.drawPrompt _, by simp⟩
+    | emitPrompt text =>
       simp only [step, hf] at h
-      cases ph <;> simp only [reduceCtorEq] at h
-      cases resumes <;> simp only [if_true, if_false, Bool.false_eq_true, Option.some.injEq] at h <;> subst h
-      · exact Or.inl ⟨_, _, _, _, _, _, hf, Local.answerF _ _ cmd, rfl⟩
-      · exact Or.inl ⟨_, _, _, _, _, _, hf, Local.answerT _ _ cmd, rfl⟩
+      cases ph <;> simp only [Option.some.injEq, reduceCtorEq] at h
+      subst h
+      exact Or.inl ⟨_, _, _, _, _, _, hf, Local.emitPrompt _ _ text, rfl⟩
+    | answer cmd =>
+      simp only [step, hf] at h
+      cases ph <;> simp only [Option.some.injEq, reduceCtorEq] at h
+      subst h
+      exact Or.inl ⟨_, _, _, _, _, _, hf, Local.answer _ _ cmd, rfl⟩
+    | endLoop =>
+      simp only [step, hf] at h
+      cases ph <;> simp only [Option.some.injEq, reduceCtorEq] at h <;> subst h
+      · exact Or.inl ⟨_, _, _, _, _, _, hf, Local.endLoop _, rfl⟩
+      · exact Or.inl ⟨_, _, _, _, _, _, hf, Local.endLoopD _ _, rfl⟩
     | leave =>
       simp only [step, hf] at h
       cases ph <;> simp only [Option.some.injEq, reduceCtorEq] at h
       subst h
       exact Or.inl ⟨_, _, _, _, _, _, hf, Local.leave _, rfl⟩
-    | abort =>
-      simp only [step, hf] at h
-      cases ph <;> simp only [Option.some.injEq, reduceCtorEq] at h <;> subst h
-      all_goals exact Or.inl ⟨_, _, _, _, _, _, hf, Local.abort _ (by simp), rfl⟩
     | finish =>
       simp only [step, hf] at h
       cases ph <;> simp only [Option.some.injEq, reduceCtorEq] at h
@@ -425,50 +487,31 @@ theorem step_cases {s : St} {e : Ent} {a : Act} {s' : St} (h : step s e a = some
       exact Or.inl ⟨_, _, _, _, _, _, hf, Local.finish, rfl⟩
     | write text =>
       simp only [step, hf, Option.some.injEq] at h
-      exact Or.inr (Or.inr (Or.inr (Or.inr ⟨_, text, rfl, rfl, h.symm⟩)))
+      exact Or.inr (Or.inr (Or.inr (Or.inr (Or.inr ⟨_, text, rfl, rfl, h.symm⟩))))
 
-/-! ### invariant: trace numbers -/
+/-! ### invariant: trace numbers, newcomers -/
 
 structure TrInv (s : St) : Prop where
   lt : ∀ tr ∈ s.traces, tr.traceNo < s.nextTrace
   nodup : (s.traces.map (·.traceNo)).Nodup
   live : ∀ t1 ∈ s.traces, ∀ t2 ∈ s.traces, t1.ent = t2.ent → t1.ended = false → t2.ended = false → t1 = t2
+  seq : s.traces.map (·.traceNo) = (List.range s.traces.length).map (· + 1)
+  next : s.nextTrace = s.traces.length + 1
+  /-- a newcomer's entity has no live trace -/
+  newc : ∀ n ∈ s.newcomers, ∀ x ∈ s.traces, x.ent = n.ent → x.ended = true
 
 theorem TrInv.uniq {s : St} (h : TrInv s) : ∀ t1 ∈ s.traces, ∀ t2 ∈ s.traces, t1.traceNo = t2.traceNo → t1 = t2 :=
   fun _ h1 _ h2 h12 => nodup_map_inj h.nodup h1 h2 h12
 
-theorem trInv_init : TrInv {} := ⟨by simp, by simp, by simp⟩
+theorem trInv_init : TrInv {} := ⟨by simp, by simp, by simp, by simp, rfl, by simp⟩
 
-theorem trInv_addTrace {s : St} {e : Ent} (h : TrInv s) (hf : findTrace s.traces e = none) : TrInv (addTrace s e) := by
-  refine ⟨?_, ?_, ?_⟩
-  · intro x hx
-    simp only [addTrace_traces, List.mem_append, List.mem_singleton, addTrace_nextTrace] at hx ⊢
-    rcases hx with hx | rfl
-    · exact Nat.lt_succ_of_lt (h.lt x hx)
-    · exact Nat.lt_succ_self _
-  · simp only [addTrace_traces, List.map_append, List.map_cons, List.map_nil]
-    refine List.nodup_append.mpr ⟨h.nodup, by simp, ?_⟩
-    intro a ha b hb hab
-    simp only [List.mem_singleton] at hb
-    simp only [List.mem_map] at ha
-    obtain ⟨x, hx, rfl⟩ := ha
-    have := h.lt x hx
-    rw [hab, hb] at this
-    exact Nat.lt_irrefl _ this
-  · intro t1 h1 t2 h2 he l1 l2
-    simp only [addTrace_traces, List.mem_append, List.mem_singleton] at h1 h2
-    rcases h1 with h1 | rfl <;> rcases h2 with h2 | rfl
-    · exact h.live t1 h1 t2 h2 he l1 l2
-    · have := findTrace_none hf t1 h1 he
-      rw [this] at l1; cases l1
-    · have := findTrace_none hf t2 h2 he.symm
-      rw [this] at l2; cases l2
-    · rfl
+theorem setTrace_length (ts : List TraceSt) (t' : TraceSt) : (setTrace ts t').length = ts.length := by
+  simp [setTrace]
 
 theorem trInv_setTrace {s s' : St} (h : TrInv s) {tr tr' : TraceSt} (hm : tr ∈ s.traces) (hl : tr.ended = false)
     (he : tr'.ent = tr.ent) (hn : tr'.traceNo = tr.traceNo) (hts : s'.traces = setTrace s.traces tr')
-    (hnt : s'.nextTrace = s.nextTrace) : TrInv s' := by
-  refine ⟨?_, ?_, ?_⟩
+    (hnt : s'.nextTrace = s.nextTrace) (hnc : s'.newcomers = s.newcomers) : TrInv s' := by
+  refine ⟨?_, ?_, ?_, ?_, ?_, ?_⟩
   · intro x hx
     rw [hts, mem_setTrace] at hx
     rw [hnt]
@@ -487,64 +530,146 @@ theorem trInv_setTrace {s s' : St} (h : TrInv s) {tr tr' : TraceSt} (hm : tr ∈
       subst this
       exact absurd hn.symm n1
     · exact h.live t1 h1 t2 h2 he12 l1 l2
+  · rw [hts, setTrace_traceNos, setTrace_length]; exact h.seq
+  · rw [hts, hnt, setTrace_length]; exact h.next
+  · intro n hn' x hx hxe
+    rw [hnc] at hn'
+    rw [hts, mem_setTrace] at hx
+    rcases hx with ⟨rfl, _⟩ | ⟨hx, _⟩
+    · have := h.newc n hn' tr hm (he.symm.trans hxe)
+      rw [this] at hl; cases hl
+    · exact h.newc n hn' x hx hxe
 
 theorem trInv_lstep {s s' : St} {e : Ent} {a : Act} (h : TrInv s) (hs : LStep s e a s') : TrInv s' := by
   obtain ⟨tr, ph', en', evs, nc', np', hf, _, rfl⟩ := hs
   obtain ⟨hm, _, hl⟩ := findTrace_some hf
-  exact trInv_setTrace (tr' := { tr with phase := ph', ended := en' }) h hm hl rfl rfl rfl rfl
+  exact trInv_setTrace (tr' := { tr with phase := ph', ended := en' }) h hm hl rfl rfl rfl rfl rfl
+
+theorem trInv_addNewcomer {s : St} {e : Ent} (h : TrInv s) (hf : findTrace s.traces e = none) :
+    TrInv (addNewcomer s e) := by
+  refine ⟨?_, ?_, ?_, ?_, ?_, ?_⟩
+  · rw [addNewcomer_traces, addNewcomer_nextTrace]; exact h.lt
+  · rw [addNewcomer_traces]; exact h.nodup
+  · rw [addNewcomer_traces]; exact h.live
+  · rw [addNewcomer_traces]; exact h.seq
+  · rw [addNewcomer_traces, addNewcomer_nextTrace]; exact h.next
+  · intro n hn x hx hxe
+    rw [addNewcomer_traces] at hx
+    rw [addNewcomer_newcomers] at hn
+    simp only [List.mem_append, List.mem_singleton] at hn
+    rcases hn with hn | rfl
+    · exact h.newc n hn x hx hxe
+    · exact findTrace_none hf x hx hxe
+
+theorem trInv_moveNewcomer {s : St} {e : Ent} {n : Newcomer} (h : TrInv s) (hn : findNewcomer s.newcomers e = some n) :
+    TrInv (moveNewcomer s e n) := by
+  obtain ⟨hnm, hne⟩ := findNewcomer_some hn
+  have hmem : ∀ x ∈ (moveNewcomer s e n).traces, x ∈ s.traces ∨ x = mkTrace s e n := by
+    intro x hx
+    simpa [moveNewcomer] using hx
+  refine ⟨?_, ?_, ?_, ?_, ?_, ?_⟩
+  · intro x hx
+    show x.traceNo < s.nextTrace + 1
+    rcases hmem x hx with hx | rfl
+    · exact Nat.lt_succ_of_lt (h.lt x hx)
+    · exact Nat.lt_succ_self _
+  · show ((s.traces ++ [mkTrace s e n]).map (·.traceNo)).Nodup
+    simp only [List.map_append, List.map_cons, List.map_nil]
+    refine List.nodup_append.mpr ⟨h.nodup, by simp, ?_⟩
+    intro a ha b hb hab
+    simp only [List.mem_singleton] at hb
+    simp only [List.mem_map] at ha
+    obtain ⟨x, hx, rfl⟩ := ha
+    have := h.lt x hx
+    rw [hab, hb] at this
+    exact Nat.lt_irrefl _ this
+  · intro t1 h1 t2 h2 he l1 l2
+    rcases hmem t1 h1 with h1 | rfl <;> rcases hmem t2 h2 with h2 | rfl
+    · exact h.live t1 h1 t2 h2 he l1 l2
+    · have := h.newc n hnm t1 h1 (he.trans hne.symm)
+      rw [this] at l1; cases l1
+    · have := h.newc n hnm t2 h2 (he.symm.trans hne.symm)
+      rw [this] at l2; cases l2
+    · rfl
+  · show (s.traces ++ [mkTrace s e n]).map (·.traceNo) = (List.range (s.traces ++ [mkTrace s e n]).length).map (· + 1)
+    rw [List.map_append, List.length_append, List.length_singleton, List.range_succ, List.map_append, ← h.seq]
+    simp [mkTrace, h.next]
+  · show s.nextTrace + 1 = (s.traces ++ [mkTrace s e n]).length + 1
+    rw [List.length_append, List.length_singleton, h.next]
+  · intro n' hn' x hx hxe
+    have hn'' : n' ∈ s.newcomers ∧ n'.ent ≠ e := by simpa [moveNewcomer] using hn'
+    rcases hmem x hx with hx | rfl
+    · exact h.newc n' hn''.1 x hx hxe
+    · exact absurd hxe.symm hn''.2
 
 theorem trInv_step {s s' : St} {e : Ent} {a : Act} (h : TrInv s) (hs : step s e a = some s') : TrInv s' := by
-  rcases step_cases hs with hl | ⟨hf, _, hl⟩ | ⟨rfl, _⟩ | ⟨rfl, _⟩ | ⟨tr, text, _, _, rfl⟩
+  rcases step_cases hs with hl | ⟨_, hf, _, rfl⟩ | ⟨_, n, hn, rfl⟩ | ⟨rfl, _⟩ | ⟨rfl, _⟩ | ⟨tr, text, _, _, rfl⟩
   · exact trInv_lstep h hl
-  · exact trInv_lstep (trInv_addTrace h hf) hl
+  · exact trInv_addNewcomer h hf
+  · exact trInv_moveNewcomer h hn
   · exact h
   · exact h
-  · exact ⟨h.lt, h.nodup, h.live⟩
+  · exact ⟨h.lt, h.nodup, h.live, h.seq, h.next, h.newc⟩
 
-/-! ### invariant: thread numbers and task numbers -/
+/-! ### invariant: thread numbers and task numbers (of traces and of newcomers) -/
+
+/-- who holds a thread / task number: a trace (`key = some traceNo`) or a newcomer (`key = none`) -/
+structure Holder where
+  key : Option Nat
+  ent : Ent
+  thn : Nat
+  tk : Option Nat
+
+def holders (s : St) : List Holder :=
+  s.traces.map (fun t => ⟨some t.traceNo, t.ent, t.threadNo, t.taskNo⟩) ++
+  s.newcomers.map (fun n => ⟨none, n.ent, n.threadNo, n.taskNo⟩)
+
+theorem mem_holders {s : St} {x : Holder} :
+    x ∈ holders s ↔ (∃ t ∈ s.traces, x = ⟨some t.traceNo, t.ent, t.threadNo, t.taskNo⟩) ∨
+      (∃ n ∈ s.newcomers, x = ⟨none, n.ent, n.threadNo, n.taskNo⟩) := by
+  simp only [holders, List.mem_append, List.mem_map]
+  constructor
+  · rintro (⟨t, ht, rfl⟩ | ⟨n, hn, rfl⟩)
+    · exact Or.inl ⟨t, ht, rfl⟩
+    · exact Or.inr ⟨n, hn, rfl⟩
+  · rintro (⟨t, ht, rfl⟩ | ⟨n, hn, rfl⟩)
+    · exact Or.inl ⟨t, ht, rfl⟩
+    · exact Or.inr ⟨n, hn, rfl⟩
 
 structure IdInv (s : St) : Prop where
-  thrGet : ∀ tr ∈ s.traces, alGet s.threadNos tr.ent.thread = some tr.threadNo
+  thrGet : ∀ x ∈ holders s, alGet s.threadNos x.ent.thread = some x.thn
   thrInj : ∀ e1 ∈ s.threadNos, ∀ e2 ∈ s.threadNos, e1.2 = e2.2 → e1.1 = e2.1
   thrLt : ∀ e ∈ s.threadNos, e.2 < s.nextThreadNo
-  taskSome : ∀ tr ∈ s.traces, tr.taskNo.isSome = tr.ent.task.isSome
-  taskLt : ∀ tr ∈ s.traces, ∀ k, tr.taskNo = some k → ∃ n, alGet s.taskCounters tr.threadNo = some n ∧ k < n
-  taskInj : ∀ t1 ∈ s.traces, ∀ t2 ∈ s.traces, t1.threadNo = t2.threadNo → t1.taskNo = t2.taskNo →
-    t1.taskNo.isSome = true → t1.traceNo = t2.traceNo
+  taskSome : ∀ x ∈ holders s, x.tk.isSome = x.ent.task.isSome
+  taskLt : ∀ x ∈ holders s, ∀ k, x.tk = some k → ∃ n, alGet s.taskCounters x.thn = some n ∧ k < n
+  taskInj : ∀ x1 ∈ holders s, ∀ x2 ∈ holders s, x1.thn = x2.thn → x1.tk = x2.tk → x1.tk.isSome = true →
+    x1.key = x2.key ∧ x1.ent = x2.ent
 
-theorem idInv_init : IdInv {} := ⟨by simp, by simp, by simp, by simp, by simp, by simp⟩
+theorem idInv_init : IdInv {} := ⟨by simp [holders], by simp, by simp, by simp [holders], by simp [holders], by simp [holders]⟩
 
-/-- the invariant only looks at the entity and the three numbers of each trace -/
-theorem idInv_of_core {s s' : St} (h : IdInv s)
-    (hc : ∀ x ∈ s'.traces, ∃ y ∈ s.traces, y.ent = x.ent ∧ y.traceNo = x.traceNo ∧ y.threadNo = x.threadNo ∧ y.taskNo = x.taskNo)
+/-- no new holders, counters untouched -/
+theorem idInv_of_sub {s s' : St} (h : IdInv s) (hc : ∀ x ∈ holders s', x ∈ holders s)
     (h1 : s'.threadNos = s.threadNos) (h2 : s'.taskCounters = s.taskCounters) (h3 : s'.nextThreadNo = s.nextThreadNo) :
     IdInv s' := by
   refine ⟨?_, ?_, ?_, ?_, ?_, ?_⟩
-  · intro x hx
-    obtain ⟨y, hy, e1, _, e3, _⟩ := hc x hx
-    rw [h1, ← e1, ← e3]; exact h.thrGet y hy
+  · intro x hx; rw [h1]; exact h.thrGet x (hc x hx)
   · rw [h1]; exact h.thrInj
   · rw [h1, h3]; exact h.thrLt
-  · intro x hx
-    obtain ⟨y, hy, e1, _, _, e4⟩ := hc x hx
-    rw [← e1, ← e4]; exact h.taskSome y hy
-  · intro x hx k hk
-    obtain ⟨y, hy, _, _, e3, e4⟩ := hc x hx
-    rw [h2, ← e3]; exact h.taskLt y hy k (e4.trans hk)
-  · intro x1 hx1 x2 hx2 a b c
-    obtain ⟨y1, hy1, _, f2, f3, f4⟩ := hc x1 hx1
-    obtain ⟨y2, hy2, _, g2, g3, g4⟩ := hc x2 hx2
-    rw [← f2, ← g2]
-    exact h.taskInj y1 hy1 y2 hy2 (by rw [f3, g3, a]) (by rw [f4, g4, b]) (by rw [f4, c])
+  · intro x hx; exact h.taskSome x (hc x hx)
+  · intro x hx k hk; rw [h2]; exact h.taskLt x (hc x hx) k hk
+  · intro x1 hx1 x2 hx2; exact h.taskInj x1 (hc x1 hx1) x2 (hc x2 hx2)
 
 theorem idInv_lstep {s s' : St} {e : Ent} {a : Act} (h : IdInv s) (hs : LStep s e a s') : IdInv s' := by
   obtain ⟨tr, ph', en', evs, nc', np', hf, _, rfl⟩ := hs
   obtain ⟨hm, _, hl⟩ := findTrace_some hf
-  refine idInv_of_core h ?_ rfl rfl rfl
+  refine idInv_of_sub h ?_ rfl rfl rfl
   intro x hx
-  rcases mem_setTrace.mp hx with ⟨rfl, _⟩ | ⟨hx, _⟩
-  · exact ⟨tr, hm, rfl, rfl, rfl, rfl⟩
-  · exact ⟨x, hx, rfl, rfl, rfl, rfl⟩
+  rw [mem_holders] at hx ⊢
+  rcases hx with ⟨t, ht, rfl⟩ | ⟨n, hn, rfl⟩
+  · rcases mem_setTrace.mp ht with ⟨rfl, _⟩ | ⟨ht, _⟩
+    · exact Or.inl ⟨tr, hm, rfl⟩
+    · exact Or.inl ⟨t, ht, rfl⟩
+  · exact Or.inr ⟨n, hn, rfl⟩
 
 theorem threadNoOf_spec (s : St) (th : Nat) (hInj : ∀ e1 ∈ s.threadNos, ∀ e2 ∈ s.threadNos, e1.2 = e2.2 → e1.1 = e2.1)
     (hLt : ∀ e ∈ s.threadNos, e.2 < s.nextThreadNo) :
@@ -606,39 +731,34 @@ theorem taskNoOf_spec (s : St) (tn : Nat) :
         have : ¬ tn = t' := fun h => ht' h.symm
         simp [alGet, this]
 
-theorem idInv_append {s s1 : St} (h : IdInv s) (t0 : TraceSt) (hts : s1.traces = s.traces ++ [t0])
-    (hT1 : alGet s1.threadNos t0.ent.thread = some t0.threadNo)
+
+theorem idInv_append {s s1 : St} (h : IdInv s) (h0 : Holder) (hmem : ∀ x ∈ holders s1, x ∈ holders s ∨ x = h0)
+    (hT1 : alGet s1.threadNos h0.ent.thread = some h0.thn)
     (hT2 : ∀ k v, alGet s.threadNos k = some v → alGet s1.threadNos k = some v)
     (hInj : ∀ e1 ∈ s1.threadNos, ∀ e2 ∈ s1.threadNos, e1.2 = e2.2 → e1.1 = e2.1)
     (hLt : ∀ e ∈ s1.threadNos, e.2 < s1.nextThreadNo)
-    (hsome : t0.taskNo.isSome = t0.ent.task.isSome)
-    (hcnt : (t0.taskNo = none ∧ s1.taskCounters = s.taskCounters) ∨
-      ∃ k, t0.taskNo = some k ∧ alGet s1.taskCounters t0.threadNo = some (k + 1) ∧
-        (∀ n, alGet s.taskCounters t0.threadNo = some n → n = k) ∧
-        ∀ t', t' ≠ t0.threadNo → alGet s1.taskCounters t' = alGet s.taskCounters t') : IdInv s1 := by
+    (hsome : h0.tk.isSome = h0.ent.task.isSome)
+    (hcnt : (h0.tk = none ∧ s1.taskCounters = s.taskCounters) ∨
+      ∃ k, h0.tk = some k ∧ alGet s1.taskCounters h0.thn = some (k + 1) ∧
+        (∀ n, alGet s.taskCounters h0.thn = some n → n = k) ∧
+        ∀ t', t' ≠ h0.thn → alGet s1.taskCounters t' = alGet s.taskCounters t') : IdInv s1 := by
   refine ⟨?_, hInj, hLt, ?_, ?_, ?_⟩
   · intro x hx
-    rw [hts] at hx
-    simp only [List.mem_append, List.mem_singleton] at hx
-    rcases hx with hx | rfl
+    rcases hmem x hx with hx | rfl
     · exact hT2 _ _ (h.thrGet x hx)
     · exact hT1
   · intro x hx
-    rw [hts] at hx
-    simp only [List.mem_append, List.mem_singleton] at hx
-    rcases hx with hx | rfl
+    rcases hmem x hx with hx | rfl
     · exact h.taskSome x hx
     · exact hsome
   · intro x hx k hk
-    rw [hts] at hx
-    simp only [List.mem_append, List.mem_singleton] at hx
     rcases hcnt with ⟨hn, hc⟩ | ⟨k0, hk0, hg, hold, hoth⟩
-    · rcases hx with hx | rfl
+    · rcases hmem x hx with hx | rfl
       · rw [hc]; exact h.taskLt x hx k hk
       · rw [hn] at hk; cases hk
-    · rcases hx with hx | rfl
+    · rcases hmem x hx with hx | rfl
       · obtain ⟨n, hn, hlt⟩ := h.taskLt x hx k hk
-        by_cases hxt : x.threadNo = t0.threadNo
+        by_cases hxt : x.thn = h0.thn
         · rw [hxt] at hn ⊢
           have := hold n hn
           exact ⟨k0 + 1, hg, by omega⟩
@@ -646,9 +766,7 @@ theorem idInv_append {s s1 : St} (h : IdInv s) (t0 : TraceSt) (hts : s1.traces =
       · rw [hk0] at hk; injection hk with hk
         exact ⟨k0 + 1, hg, by omega⟩
   · intro x1 hx1 x2 hx2 a b c
-    rw [hts] at hx1 hx2
-    simp only [List.mem_append, List.mem_singleton] at hx1 hx2
-    rcases hx1 with hx1 | rfl <;> rcases hx2 with hx2 | rfl
+    rcases hmem x1 hx1 with hx1 | rfl <;> rcases hmem x2 hx2 with hx2 | rfl
     · exact h.taskInj x1 hx1 x2 hx2 a b c
     · exfalso
       rcases hcnt with ⟨hn, _⟩ | ⟨k0, hk0, _, hold, _⟩
@@ -664,65 +782,439 @@ theorem idInv_append {s s1 : St} (h : IdInv s) (t0 : TraceSt) (hts : s1.traces =
         rw [← a] at hn
         have := hold n hn
         omega
-    · rfl
+    · exact ⟨rfl, rfl⟩
 
-theorem idInv_addTrace {s : St} {e : Ent} (h : IdInv s) : IdInv (addTrace s e) := by
+theorem holders_addNewcomer {s : St} {e : Ent} :
+    ∀ x ∈ holders (addNewcomer s e), x ∈ holders s ∨ x = ⟨none, e, newThreadNo s e, newTaskNo s e⟩ := by
+  intro x hx
+  rw [mem_holders] at hx
+  rcases hx with ⟨t, ht, rfl⟩ | ⟨n, hn, rfl⟩
+  · rw [addNewcomer_traces] at ht
+    exact Or.inl (mem_holders.mpr (Or.inl ⟨t, ht, rfl⟩))
+  · rw [addNewcomer_newcomers] at hn
+    simp only [List.mem_append, List.mem_singleton] at hn
+    rcases hn with hn | rfl
+    · exact Or.inl (mem_holders.mpr (Or.inr ⟨n, hn, rfl⟩))
+    · exact Or.inr rfl
+
+theorem idInv_addNewcomer {s : St} {e : Ent} (h : IdInv s) : IdInv (addNewcomer s e) := by
+  have hmem := holders_addNewcomer (s := s) (e := e)
   obtain ⟨th, ta⟩ := e
   have hsp := threadNoOf_spec s th h.thrInj h.thrLt
   have hfr := threadNoOf_frame s th
   cases ta with
   | none =>
-    refine idInv_append h (newTrace s ⟨th, none⟩) rfl hsp.1 hsp.2.1 hsp.2.2.1 hsp.2.2.2 rfl (Or.inl ⟨rfl, ?_⟩)
-    exact hfr.2.2.2.2.2
+    refine idInv_append h _ hmem hsp.1 hsp.2.1 hsp.2.2.1 hsp.2.2.2 rfl (Or.inl ⟨rfl, ?_⟩)
+    exact hfr.2.2.2.2.2.1
   | some j =>
     have hk := taskNoOf_spec (threadNoOf s th).2 (threadNoOf s th).1
     have hfr2 := taskNoOf_frame (threadNoOf s th).2 (threadNoOf s th).1
-    have e1 : (addTrace s ⟨th, some j⟩).threadNos = (threadNoOf s th).2.threadNos := hfr2.2.2.2.2.2.1
-    have e2 : (addTrace s ⟨th, some j⟩).nextThreadNo = (threadNoOf s th).2.nextThreadNo := hfr2.2.2.2.2.2.2
-    refine idInv_append h (newTrace s ⟨th, some j⟩) rfl ?_ ?_ ?_ ?_ rfl (Or.inr ⟨_, rfl, hk.1, ?_, ?_⟩)
+    have e1 : (addNewcomer s ⟨th, some j⟩).threadNos = (threadNoOf s th).2.threadNos := hfr2.2.2.2.2.2.1
+    have e2 : (addNewcomer s ⟨th, some j⟩).nextThreadNo = (threadNoOf s th).2.nextThreadNo := hfr2.2.2.2.2.2.2.1
+    refine idInv_append h _ hmem ?_ ?_ ?_ ?_ rfl (Or.inr ⟨_, rfl, hk.1, ?_, ?_⟩)
     · rw [e1]; exact hsp.1
     · rw [e1]; exact hsp.2.1
     · rw [e1]; exact hsp.2.2.1
     · rw [e1, e2]; exact hsp.2.2.2
-    · intro n hn; rw [← hfr.2.2.2.2.2] at hn; exact hk.2.1 n hn
-    · intro t' ht'; rw [← hfr.2.2.2.2.2]; exact hk.2.2 t' ht'
+    · intro n hn; rw [← hfr.2.2.2.2.2.1] at hn; exact hk.2.1 n hn
+    · intro t' ht'; rw [← hfr.2.2.2.2.2.1]; exact hk.2.2 t' ht'
+
+theorem idInv_moveNewcomer {s : St} {e : Ent} {n : Newcomer} (h : IdInv s) (hn : findNewcomer s.newcomers e = some n) :
+    IdInv (moveNewcomer s e n) := by
+  obtain ⟨hnm, hne⟩ := findNewcomer_some hn
+  have horig : ∀ x ∈ holders (moveNewcomer s e n),
+      (x ∈ holders s ∧ (x.key = none → x.ent ≠ e)) ∨
+      (x.key = some s.nextTrace ∧ (⟨none, x.ent, x.thn, x.tk⟩ : Holder) ∈ holders s ∧ x.ent = e) := by
+    intro x hx
+    rw [mem_holders] at hx
+    rcases hx with ⟨t, ht, rfl⟩ | ⟨n', hn', rfl⟩
+    · have ht' : t ∈ s.traces ∨ t = mkTrace s e n := by simpa [moveNewcomer] using ht
+      rcases ht' with ht' | rfl
+      · exact Or.inl ⟨mem_holders.mpr (Or.inl ⟨t, ht', rfl⟩), fun hk => by cases hk⟩
+      · refine Or.inr ⟨rfl, mem_holders.mpr (Or.inr ⟨n, hnm, ?_⟩), rfl⟩
+        simp [mkTrace, hne]
+    · have hn'' : n' ∈ s.newcomers ∧ n'.ent ≠ e := by simpa [moveNewcomer] using hn'
+      exact Or.inl ⟨mem_holders.mpr (Or.inr ⟨n', hn''.1, rfl⟩), fun _ => hn''.2⟩
+  have hsame : ∀ x ∈ holders (moveNewcomer s e n), ∃ y ∈ holders s, y.ent = x.ent ∧ y.thn = x.thn ∧ y.tk = x.tk := by
+    intro x hx
+    rcases horig x hx with ⟨hx, _⟩ | ⟨_, hx, _⟩
+    · exact ⟨x, hx, rfl, rfl, rfl⟩
+    · exact ⟨_, hx, rfl, rfl, rfl⟩
+  refine ⟨?_, h.thrInj, h.thrLt, ?_, ?_, ?_⟩
+  · intro x hx
+    obtain ⟨y, hy, e1, e2, _⟩ := hsame x hx
+    rw [← e1, ← e2]; exact h.thrGet y hy
+  · intro x hx
+    obtain ⟨y, hy, e1, _, e3⟩ := hsame x hx
+    rw [← e1, ← e3]; exact h.taskSome y hy
+  · intro x hx k hk
+    obtain ⟨y, hy, _, e2, e3⟩ := hsame x hx
+    rw [← e2]; exact h.taskLt y hy k (e3.trans hk)
+  · intro x1 hx1 x2 hx2 a b c
+    rcases horig x1 hx1 with ⟨o1, k1⟩ | ⟨k1, o1, en1⟩ <;> rcases horig x2 hx2 with ⟨o2, k2⟩ | ⟨k2, o2, en2⟩
+    · exact h.taskInj x1 o1 x2 o2 a b c
+    · have := h.taskInj x1 o1 _ o2 a b c
+      exact absurd (this.2.trans en2) (k1 this.1)
+    · have := h.taskInj _ o1 x2 o2 a b c
+      exact absurd (this.2.symm.trans en1) (k2 this.1.symm)
+    · exact ⟨k1.trans k2.symm, en1.trans en2.symm⟩
 
 theorem idInv_step {s s' : St} {e : Ent} {a : Act} (h : IdInv s) (hs : step s e a = some s') : IdInv s' := by
-  rcases step_cases hs with hl | ⟨_, _, hl⟩ | ⟨rfl, _⟩ | ⟨rfl, _⟩ | ⟨tr, text, _, _, rfl⟩
+  rcases step_cases hs with hl | ⟨_, _, _, rfl⟩ | ⟨_, n, hn, rfl⟩ | ⟨rfl, _⟩ | ⟨rfl, _⟩ | ⟨tr, text, _, _, rfl⟩
   · exact idInv_lstep h hl
-  · exact idInv_lstep (idInv_addTrace h) hl
+  · exact idInv_addNewcomer h
+  · exact idInv_moveNewcomer h hn
   · exact h
   · exact h
   · exact ⟨h.thrGet, h.thrInj, h.thrLt, h.taskSome, h.taskLt, h.taskInj⟩
 
+/-! ### invariant: the numbers in the stream, the numbers held (drawn, not yet emitted) by a phase -/
+
+theorem callNos_append (a b : List Ev) : callNos (a ++ b) = callNos a ++ callNos b := by simp [callNos]
+theorem promptNos_append (a b : List Ev) : promptNos (a ++ b) = promptNos a ++ promptNos b := by simp [promptNos]
+theorem traceNos_append (a b : List Ev) : traceNos (a ++ b) = traceNos a ++ traceNos b := by simp [traceNos]
+theorem callNosOf_append (t : Nat) (a b : List Ev) : callNosOf t (a ++ b) = callNosOf t a ++ callNosOf t b := by
+  simp [callNosOf]
+theorem promptNosOf_append (t : Nat) (a b : List Ev) : promptNosOf t (a ++ b) = promptNosOf t a ++ promptNosOf t b := by
+  simp [promptNosOf]
+
+theorem pairwise_lt_snoc {l : List Nat} {n : Nat} (h : l.Pairwise (· < ·)) (hl : ∀ x ∈ l, x < n) :
+    (l ++ [n]).Pairwise (· < ·) := by
+  rw [List.pairwise_append]
+  refine ⟨h, by simp, ?_⟩
+  intro a ha b hb
+  simp only [List.mem_singleton] at hb
+  subst hb
+  exact hl a ha
+
+/-- the trace-call number a phase has drawn but not yet emitted -/
+def heldCall : Phase → Option Nat
+  | .callDrawn c => some c.callNo
+  | _ => none
+/-- the prompt number a phase has drawn but not yet emitted -/
+def heldPrompt : Phase → Option Nat
+  | .promptDrawn _ p => some p
+  | _ => none
+
+/-- one counter `next`, the numbers `nos` it has handed out that are in the stream, per trace `nosOf t`, and the numbers
+held by the phases of the traces `ts` -/
+structure HInv (hd : Phase → Option Nat) (ts : List TraceSt) (next : Nat) (nos : List Nat) (nosOf : Nat → List Nat) :
+    Prop where
+  sub : ∀ t, ∀ k ∈ nosOf t, k ∈ nos
+  lt : ∀ k ∈ nos, k < next
+  nd : nos.Nodup
+  inc : ∀ t, (nosOf t).Pairwise (· < ·)
+  hLt : ∀ x ∈ ts, ∀ k, hd x.phase = some k → k < next
+  hFresh : ∀ x ∈ ts, ∀ k, hd x.phase = some k → k ∉ nos
+  hDist : ∀ x ∈ ts, ∀ y ∈ ts, ∀ k, hd x.phase = some k → hd y.phase = some k → x.traceNo = y.traceNo
+  hGt : ∀ x ∈ ts, ∀ k, hd x.phase = some k → ∀ k' ∈ nosOf x.traceNo, k' < k
+
+section hinv
+variable {hd : Phase → Option Nat} {ts : List TraceSt} {next : Nat} {nos : List Nat} {nosOf : Nat → List Nat}
+
+theorem hinv_init : HInv hd [] 1 [] (fun _ => []) :=
+  ⟨by simp, by simp, by simp, by simp, by simp, by simp, by simp, by simp⟩
+
+theorem HInv.congr (H : HInv hd ts next nos nosOf) {nos' : List Nat} {nosOf' : Nat → List Nat} (h1 : nos' = nos)
+    (h2 : ∀ t, nosOf' t = nosOf t) : HInv hd ts next nos' nosOf' := by
+  obtain rfl := h1
+  obtain rfl : nosOf' = nosOf := funext h2
+  exact H
+
+theorem mem_setTrace_cases {ts : List TraceSt} {t' x : TraceSt} (h : x ∈ setTrace ts t') :
+    x = t' ∨ (x ∈ ts ∧ x.traceNo ≠ t'.traceNo) := by
+  rcases mem_setTrace.mp h with ⟨rfl, _⟩ | h
+  · exact Or.inl rfl
+  · exact Or.inr h
+
+/-- the changed trace holds nothing afterwards, nothing is emitted -/
+theorem hinv_keep (H : HInv hd ts next nos nosOf) {tr' : TraceSt} (hk : hd tr'.phase = none) :
+    HInv hd (setTrace ts tr') next nos nosOf := by
+  refine ⟨H.sub, H.lt, H.nd, H.inc, ?_, ?_, ?_, ?_⟩
+  · intro x hx k hxk
+    rcases mem_setTrace_cases hx with rfl | ⟨hx, _⟩
+    · rw [hk] at hxk; cases hxk
+    · exact H.hLt x hx k hxk
+  · intro x hx k hxk
+    rcases mem_setTrace_cases hx with rfl | ⟨hx, _⟩
+    · rw [hk] at hxk; cases hxk
+    · exact H.hFresh x hx k hxk
+  · intro x hx y hy k hxk hyk
+    rcases mem_setTrace_cases hx with rfl | ⟨hx, _⟩
+    · rw [hk] at hxk; cases hxk
+    · rcases mem_setTrace_cases hy with rfl | ⟨hy, _⟩
+      · rw [hk] at hyk; cases hyk
+      · exact H.hDist x hx y hy k hxk hyk
+  · intro x hx k hxk
+    rcases mem_setTrace_cases hx with rfl | ⟨hx, _⟩
+    · rw [hk] at hxk; cases hxk
+    · exact H.hGt x hx k hxk
+
+/-- the changed trace draws the next number, nothing is emitted -/
+theorem hinv_draw (H : HInv hd ts next nos nosOf) {tr' : TraceSt} (hk : hd tr'.phase = some next) :
+    HInv hd (setTrace ts tr') (next + 1) nos nosOf := by
+  refine ⟨H.sub, fun k hk' => Nat.lt_succ_of_lt (H.lt k hk'), H.nd, H.inc, ?_, ?_, ?_, ?_⟩
+  · intro x hx k hxk
+    rcases mem_setTrace_cases hx with rfl | ⟨hx, _⟩
+    · rw [hk] at hxk; injection hxk with hxk; omega
+    · exact Nat.lt_succ_of_lt (H.hLt x hx k hxk)
+  · intro x hx k hxk
+    rcases mem_setTrace_cases hx with rfl | ⟨hx, _⟩
+    · rw [hk] at hxk; injection hxk with hxk
+      intro hin
+      have := H.lt k hin
+      omega
+    · exact H.hFresh x hx k hxk
+  · intro x hx y hy k hxk hyk
+    rcases mem_setTrace_cases hx with rfl | ⟨hx', _⟩
+    · rcases mem_setTrace_cases hy with rfl | ⟨hy, _⟩
+      · rfl
+      · rw [hk] at hxk; injection hxk with hxk
+        have := H.hLt y hy k hyk
+        omega
+    · rcases mem_setTrace_cases hy with rfl | ⟨hy, _⟩
+      · rw [hk] at hyk; injection hyk with hyk
+        have := H.hLt x hx' k hxk
+        omega
+      · exact H.hDist x hx' y hy k hxk hyk
+  · intro x hx k hxk
+    rcases mem_setTrace_cases hx with rfl | ⟨hx, _⟩
+    · rw [hk] at hxk; injection hxk with hxk
+      intro k' hk'
+      have := H.lt k' (H.sub _ k' hk')
+      omega
+    · exact H.hGt x hx k hxk
+
+/-- the changed trace emits the number it holds -/
+theorem hinv_emit (H : HInv hd ts next nos nosOf) {tr tr' : TraceSt} (hm : tr ∈ ts) (hno : tr'.traceNo = tr.traceNo)
+    (k : Nat) (hk0 : hd tr.phase = some k) (hk : hd tr'.phase = none) :
+    HInv hd (setTrace ts tr') next (nos ++ [k]) (fun t => if t = tr.traceNo then nosOf t ++ [k] else nosOf t) := by
+  refine ⟨?_, ?_, ?_, ?_, ?_, ?_, ?_, ?_⟩
+  · intro t k' hk'
+    simp only [List.mem_append, List.mem_singleton]
+    by_cases ht : t = tr.traceNo
+    · simp only [ht, if_true, List.mem_append, List.mem_singleton] at hk'
+      rcases hk' with hk' | rfl
+      · exact Or.inl (H.sub _ k' hk')
+      · exact Or.inr rfl
+    · simp only [ht, if_false] at hk'
+      exact Or.inl (H.sub _ k' hk')
+  · intro k' hk'
+    simp only [List.mem_append, List.mem_singleton] at hk'
+    rcases hk' with hk' | rfl
+    · exact H.lt k' hk'
+    · exact H.hLt tr hm _ hk0
+  · refine List.nodup_append.mpr ⟨H.nd, by simp, ?_⟩
+    intro a ha b hb hab
+    simp only [List.mem_singleton] at hb
+    subst hb; subst hab
+    exact H.hFresh tr hm _ hk0 ha
+  · intro t
+    by_cases ht : t = tr.traceNo
+    · simp only [ht, if_true]
+      exact pairwise_lt_snoc (H.inc _) (H.hGt tr hm k hk0)
+    · simp only [ht, if_false]
+      exact H.inc t
+  · intro x hx k' hxk
+    rcases mem_setTrace_cases hx with rfl | ⟨hx, _⟩
+    · rw [hk] at hxk; cases hxk
+    · exact H.hLt x hx k' hxk
+  · intro x hx k' hxk
+    rcases mem_setTrace_cases hx with rfl | ⟨hx, hxn⟩
+    · rw [hk] at hxk; cases hxk
+    · simp only [List.mem_append, List.mem_singleton, not_or]
+      refine ⟨H.hFresh x hx k' hxk, ?_⟩
+      intro hkk
+      subst hkk
+      exact hxn ((H.hDist x hx tr hm _ hxk hk0).trans hno.symm)
+  · intro x hx y hy k' hxk hyk
+    rcases mem_setTrace_cases hx with rfl | ⟨hx, _⟩
+    · rw [hk] at hxk; cases hxk
+    · rcases mem_setTrace_cases hy with rfl | ⟨hy, _⟩
+      · rw [hk] at hyk; cases hyk
+      · exact H.hDist x hx y hy k' hxk hyk
+  · intro x hx k' hxk
+    rcases mem_setTrace_cases hx with rfl | ⟨hx, hxn⟩
+    · rw [hk] at hxk; cases hxk
+    · have hne : ¬ x.traceNo = tr.traceNo := fun h => hxn (h.trans hno.symm)
+      simp only [hne, if_false]
+      exact H.hGt x hx k' hxk
+
+theorem hinv_append (H : HInv hd ts next nos nosOf) {t0 : TraceSt} (hk : hd t0.phase = none) :
+    HInv hd (ts ++ [t0]) next nos nosOf := by
+  have hmem : ∀ x ∈ ts ++ [t0], x ∈ ts ∨ x = t0 := by intro x hx; simpa using hx
+  refine ⟨H.sub, H.lt, H.nd, H.inc, ?_, ?_, ?_, ?_⟩
+  · intro x hx k hxk
+    rcases hmem x hx with hx | rfl
+    · exact H.hLt x hx k hxk
+    · rw [hk] at hxk; cases hxk
+  · intro x hx k hxk
+    rcases hmem x hx with hx | rfl
+    · exact H.hFresh x hx k hxk
+    · rw [hk] at hxk; cases hxk
+  · intro x hx y hy k hxk hyk
+    rcases hmem x hx with hx | rfl
+    · rcases hmem y hy with hy | rfl
+      · exact H.hDist x hx y hy k hxk hyk
+      · rw [hk] at hyk; cases hyk
+    · rw [hk] at hxk; cases hxk
+  · intro x hx k hxk
+    rcases hmem x hx with hx | rfl
+    · exact H.hGt x hx k hxk
+    · rw [hk] at hxk; cases hxk
+
+end hinv
+
+/-- a local transition keeps the trace-call numbers in order -/
+theorem callInv_local {ts : List TraceSt} {tr : TraceSt} {o : List Ev} {thn : Nat} {tkn : Option Nat} {nc np : Nat}
+    {a : Act} {ph' : Phase} {en' : Bool} {evs : List Ev} {nc' np' : Nat}
+    (H : HInv heldCall ts nc (callNos o) (fun t => callNosOf t o)) (hm : tr ∈ ts)
+    (hL : Local tr.traceNo thn tkn nc np tr.phase a ph' en' evs nc' np') :
+    HInv heldCall (setTrace ts { tr with phase := ph', ended := en' }) nc' (callNos (o ++ evs))
+      (fun t => callNosOf t (o ++ evs)) := by
+  obtain ⟨ent, no, thn', tkn', ph, en⟩ := tr
+  simp only at hL
+  cases hL with
+  | drawCall f l fr ev =>
+    exact (hinv_draw H rfl).congr (by simp) (fun t => by simp)
+  | emitCall c =>
+    refine (hinv_emit (tr' := ⟨ent, no, thn', tkn', .call c, false⟩) H hm rfl c.callNo rfl rfl).congr (by simp [callNos]) (fun t => ?_)
+    by_cases ht : t = no
+    · simp [callNosOf, ht]
+    · have ht' : ¬ no = t := fun h => ht h.symm
+      simp [callNosOf, ht, ht']
+  | _ => exact (hinv_keep H rfl).congr (by simp [callNos]) (fun t => by simp [callNosOf])
+
+/-- a local transition keeps the prompt numbers in order -/
+theorem promptInv_local {ts : List TraceSt} {tr : TraceSt} {o : List Ev} {thn : Nat} {tkn : Option Nat} {nc np : Nat}
+    {a : Act} {ph' : Phase} {en' : Bool} {evs : List Ev} {nc' np' : Nat}
+    (H : HInv heldPrompt ts np (promptNos o) (fun t => promptNosOf t o)) (hm : tr ∈ ts)
+    (hL : Local tr.traceNo thn tkn nc np tr.phase a ph' en' evs nc' np') :
+    HInv heldPrompt (setTrace ts { tr with phase := ph', ended := en' }) np' (promptNos (o ++ evs))
+      (fun t => promptNosOf t (o ++ evs)) := by
+  obtain ⟨ent, no, thn', tkn', ph, en⟩ := tr
+  simp only at hL
+  cases hL with
+  | drawPrompt c =>
+    exact (hinv_draw H rfl).congr (by simp) (fun t => by simp)
+  | emitPrompt c p text =>
+    refine (hinv_emit (tr' := ⟨ent, no, thn', tkn', .prompt c p, false⟩) H hm rfl p rfl rfl).congr (by simp [promptNos]) (fun t => ?_)
+    by_cases ht : t = no
+    · simp [promptNosOf, ht]
+    · have ht' : ¬ no = t := fun h => ht h.symm
+      simp [promptNosOf, ht, ht']
+  | _ => exact (hinv_keep H rfl).congr (by simp [promptNos]) (fun t => by simp [promptNosOf])
+
+/-- what a local transition contributes to the trace numbers in the stream -/
+theorem local_traceNos {t thn : Nat} {tkn : Option Nat} {nc np : Nat} {ph : Phase} {a : Act} {ph' : Phase} {en' : Bool}
+    {evs : List Ev} {nc' np' : Nat} (hL : Local t thn tkn nc np ph a ph' en' evs nc' np') :
+    ph' ≠ .numbered ∧ (traceNos evs = [] ∨ (ph = .numbered ∧ traceNos evs = [t])) := by
+  cases hL <;> simp [traceNos]
+
+/-- every event of a local transition carries the trace number; there is at most one -/
+theorem local_evTrace {t thn : Nat} {tkn : Option Nat} {nc np : Nat} {ph : Phase} {a : Act} {ph' : Phase} {en' : Bool}
+    {evs : List Ev} {nc' np' : Nat} (hL : Local t thn tkn nc np ph a ph' en' evs nc' np') :
+    (∀ ev ∈ evs, evTrace ev = t) ∧ evs.length ≤ 1 ∧ (a.hidden = true → evs = []) := by
+  cases hL <;> simp [evTrace, Act.hidden]
+
+structure NumInv (s : St) : Prop where
+  call : HInv heldCall s.traces s.nextCall (callNos s.out) (fun t => callNosOf t s.out)
+  prompt : HInv heldPrompt s.traces s.nextPrompt (promptNos s.out) (fun t => promptNosOf t s.out)
+  trND : (traceNos s.out).Nodup
+  /-- a trace whose number is in the stream has left the phase `numbered` -/
+  trSrc : ∀ t ∈ traceNos s.out, ∃ x ∈ s.traces, x.traceNo = t ∧ x.phase ≠ .numbered
+
+theorem numInv_init : NumInv {} := ⟨hinv_init, hinv_init, by simp [traceNos], by simp [traceNos]⟩
+
+theorem numInv_lstep {s s' : St} {e : Ent} {a : Act} (ht : TrInv s) (h : NumInv s) (hs : LStep s e a s') : NumInv s' := by
+  obtain ⟨tr, ph', en', evs, nc', np', hf, hL, rfl⟩ := hs
+  obtain ⟨hm, _, _⟩ := findTrace_some hf
+  obtain ⟨hnn, htn⟩ := local_traceNos hL
+  have hsrc : ∀ t ∈ traceNos s.out, ∃ x ∈ setTrace s.traces { tr with phase := ph', ended := en' },
+      x.traceNo = t ∧ x.phase ≠ .numbered := by
+    intro t ht'
+    obtain ⟨x, hx, hxt, hxp⟩ := h.trSrc t ht'
+    by_cases hxn : x.traceNo = tr.traceNo
+    · exact ⟨_, mem_setTrace.mpr (Or.inl ⟨rfl, tr, hm, rfl⟩), hxn.symm.trans hxt, hnn⟩
+    · exact ⟨x, mem_setTrace.mpr (Or.inr ⟨hx, hxn⟩), hxt, hxp⟩
+  refine ⟨callInv_local h.call hm hL, promptInv_local h.prompt hm hL, ?_, ?_⟩
+  · show (traceNos (s.out ++ evs)).Nodup
+    rw [traceNos_append]
+    rcases htn with htn | ⟨hph, htn⟩ <;> rw [htn]
+    · simpa using h.trND
+    · refine List.nodup_append.mpr ⟨h.trND, by simp, ?_⟩
+      intro a' ha b hb hab
+      simp only [List.mem_singleton] at hb
+      subst hb; subst hab
+      obtain ⟨x, hx, hxt, hxp⟩ := h.trSrc _ ha
+      have := ht.uniq x hx tr hm hxt
+      subst this
+      exact hxp hph
+  · show ∀ t ∈ traceNos (s.out ++ evs), _
+    intro t ht'
+    rw [traceNos_append, List.mem_append] at ht'
+    rcases ht' with ht' | ht'
+    · exact hsrc t ht'
+    · rcases htn with htn | ⟨_, htn⟩ <;> rw [htn] at ht'
+      · cases ht'
+      · simp only [List.mem_singleton] at ht'
+        exact ⟨_, mem_setTrace.mpr (Or.inl ⟨rfl, tr, hm, rfl⟩), ht'.symm, hnn⟩
+
+theorem numInv_moveNewcomer {s : St} {e : Ent} {n : Newcomer} (h : NumInv s) : NumInv (moveNewcomer s e n) := by
+  refine ⟨hinv_append h.call rfl, hinv_append h.prompt rfl, h.trND, ?_⟩
+  intro t ht
+  obtain ⟨x, hx, hxt, hxp⟩ := h.trSrc t ht
+  exact ⟨x, List.mem_append_left _ hx, hxt, hxp⟩
+
+theorem numInv_addNewcomer {s : St} {e : Ent} (h : NumInv s) : NumInv (addNewcomer s e) := by
+  refine ⟨?_, ?_, ?_, ?_⟩
+  · rw [addNewcomer_traces, addNewcomer_nextCall, addNewcomer_out]; exact h.call
+  · rw [addNewcomer_traces, addNewcomer_nextPrompt, addNewcomer_out]; exact h.prompt
+  · rw [addNewcomer_out]; exact h.trND
+  · rw [addNewcomer_traces, addNewcomer_out]; exact h.trSrc
+
+theorem numInv_step {s s' : St} {e : Ent} {a : Act} (ht : TrInv s) (h : NumInv s) (hs : step s e a = some s') :
+    NumInv s' := by
+  rcases step_cases hs with hl | ⟨_, _, _, rfl⟩ | ⟨_, n, hn, rfl⟩ | ⟨rfl, _⟩ | ⟨rfl, _⟩ | ⟨tr, text, _, _, rfl⟩
+  · exact numInv_lstep ht h hl
+  · exact numInv_addNewcomer h
+  · exact numInv_moveNewcomer h
+  · exact h
+  · exact h
+  · refine ⟨h.call.congr (by simp [callNos]) (fun t => by simp [callNosOf]),
+      h.prompt.congr (by simp [promptNos]) (fun t => by simp [promptNosOf]), ?_, ?_⟩
+    · show (traceNos (s.out ++ _)).Nodup
+      rw [traceNos_append]; simpa [traceNos] using h.trND
+    · show ∀ t ∈ traceNos (s.out ++ _), _
+      rw [traceNos_append]; simpa [traceNos] using h.trSrc
+
 /-! ### invariant: the grammar state reached by the emitted stream mirrors the phases of the traces -/
 
-/-- the trace call a phase is in -/
+/-- the trace call a phase is in, as far as the stream shows -/
 def phaseCall : Phase → Option CallInfo
-  | .idle => none
-  | .call c => some c
-  | .cmdloop c _ => some c
-  | .prompt c _ => some c
+  | .numbered | .idle | .callDrawn _ => none
+  | .call c | .cmdloop c | .promptDrawn c _ | .prompt c _ => some c
 
 def notPrompt (ph : Phase) : Prop := ∀ c p, ph ≠ .prompt c p
 
-/-- traces `ts` (with trace counter `nt`, prompt counter `np`) are mirrored by grammar state `w` -/
-structure Sim (ts : List TraceSt) (nt np : Nat) (w : W) : Prop where
+/-- traces `ts` (with trace counter `nt`) are mirrored by grammar state `w`: a `numbered` trace is not yet known to the
+grammar, a `callDrawn` one is idle there, a `promptDrawn` one is in its command loop -/
+structure Sim (ts : List TraceSt) (nt : Nat) (w : W) : Prop where
   uniq : ∀ t1 ∈ ts, ∀ t2 ∈ ts, t1.traceNo = t2.traceNo → t1 = t2
-  active : ∀ x ∈ ts, x.ended = false → x.traceNo ∈ w.active
+  active : ∀ x ∈ ts, x.ended = false → x.phase ≠ .numbered → x.traceNo ∈ w.active
+  fresh : ∀ x ∈ ts, x.phase = .numbered → x.traceNo ∉ w.started
   calls : ∀ x ∈ ts, alGet w.calls x.traceNo = phaseCall x.phase
   prompts1 : ∀ e ∈ w.prompts, ∃ x ∈ ts, x.traceNo = e.2 ∧ ∃ c, x.phase = .prompt c e.1
   prompts2 : ∀ x ∈ ts, ∀ c p, x.phase = .prompt c p → alGet w.prompts p = some x.traceNo
   ltT : ∀ x ∈ ts, x.traceNo < nt
   started : ∀ t ∈ w.started, t < nt
   callsLt : ∀ t c, alGet w.calls t = some c → t < nt
-  ever : ∀ p ∈ w.promptsEver, p < np
   promptsEver : ∀ e ∈ w.prompts, e.1 ∈ w.promptsEver
 
-theorem sim_init : Sim [] 1 1 {} :=
-  ⟨by simp, by simp, by simp, by simp, by simp, by simp, by simp, by simp [alGet], by simp, by simp⟩
+theorem sim_init : Sim [] 1 {} :=
+  ⟨by simp, by simp, by simp, by simp, by simp, by simp, by simp, by simp, by simp [alGet], by simp⟩
 
-theorem Sim.noPrompt {ts : List TraceSt} {nt np : Nat} {w : W} (h : Sim ts nt np w) {tr : TraceSt} (hm : tr ∈ ts)
+theorem Sim.noPrompt {ts : List TraceSt} {nt : Nat} {w : W} (h : Sim ts nt w) {tr : TraceSt} (hm : tr ∈ ts)
     (hp : notPrompt tr.phase) : ∀ e ∈ w.prompts, e.2 ≠ tr.traceNo := by
   intro e he heq
   obtain ⟨x, hx, hxt, c, hc⟩ := h.prompts1 e he
@@ -739,10 +1231,10 @@ theorem uniq_setTrace {ts : List TraceSt} (hu : ∀ t1 ∈ ts, ∀ t2 ∈ ts, t1
   · exact absurd h12 n1
   · exact hu t1 h1 t2 h2 h12
 
-/-- a change of trace `tr` into `tr'` and of the grammar state `w` into `w'` that agree with each other and leave
-everything about other trace numbers alone -/
-theorem sim_frame {ts : List TraceSt} {nt np np' : Nat} {w w' : W} (h : Sim ts nt np w) {tr tr' : TraceSt}
-    (hm : tr ∈ ts) (hno : tr'.traceNo = tr.traceNo)
+/-- a change of trace `tr` into `tr'` (not `numbered`) and of the grammar state `w` into `w'` that agree with each other and
+leave everything about other trace numbers alone -/
+theorem sim_frame {ts : List TraceSt} {nt : Nat} {w w' : W} (h : Sim ts nt w) {tr tr' : TraceSt}
+    (hm : tr ∈ ts) (hno : tr'.traceNo = tr.traceNo) (hnn : tr'.phase ≠ .numbered)
     (hact : ∀ t, t ≠ tr.traceNo → t ∈ w.active → t ∈ w'.active)
     (hcalls : ∀ t, t ≠ tr.traceNo → alGet w'.calls t = alGet w.calls t)
     (hp1 : ∀ e ∈ w'.prompts, (e ∈ w.prompts ∧ e.2 ≠ tr.traceNo) ∨ (e.2 = tr.traceNo ∧ ∃ c, tr'.phase = .prompt c e.1))
@@ -750,19 +1242,24 @@ theorem sim_frame {ts : List TraceSt} {nt np np' : Nat} {w w' : W} (h : Sim ts n
     (ha' : tr'.ended = false → tr.traceNo ∈ w'.active)
     (hc' : alGet w'.calls tr.traceNo = phaseCall tr'.phase)
     (hp' : ∀ c p, tr'.phase = .prompt c p → alGet w'.prompts p = some tr.traceNo)
-    (hst : w'.started = w.started)
-    (hev : ∀ p ∈ w'.promptsEver, p < np')
-    (hpe : ∀ e ∈ w'.prompts, e.1 ∈ w'.promptsEver) : Sim (setTrace ts tr') nt np' w' := by
+    (hst : ∀ t ∈ w'.started, t ∈ w.started ∨ t = tr.traceNo)
+    (hpe : ∀ e ∈ w'.prompts, e.1 ∈ w'.promptsEver) : Sim (setTrace ts tr') nt w' := by
   have hmem : ∀ x ∈ setTrace ts tr', x = tr' ∨ (x ∈ ts ∧ x.traceNo ≠ tr.traceNo) := by
     intro x hx
     rcases mem_setTrace.mp hx with ⟨rfl, _⟩ | ⟨hx, n⟩
     · exact Or.inl rfl
     · exact Or.inr ⟨hx, hno ▸ n⟩
-  refine ⟨uniq_setTrace h.uniq tr', ?_, ?_, ?_, ?_, ?_, ?_, ?_, hev, hpe⟩
-  · intro x hx hl
+  refine ⟨uniq_setTrace h.uniq tr', ?_, ?_, ?_, ?_, ?_, ?_, ?_, ?_, hpe⟩
+  · intro x hx hl hxn
     rcases hmem x hx with rfl | ⟨hx, n⟩
     · rw [hno]; exact ha' hl
-    · exact hact _ n (h.active x hx hl)
+    · exact hact _ n (h.active x hx hl hxn)
+  · intro x hx hxn hin
+    rcases hmem x hx with rfl | ⟨hx, n⟩
+    · exact hnn hxn
+    · rcases hst _ hin with hin | hin
+      · exact h.fresh x hx hxn hin
+      · exact n hin
   · intro x hx
     rcases hmem x hx with rfl | ⟨hx, n⟩
     · rw [hno]; exact hc'
@@ -781,109 +1278,115 @@ theorem sim_frame {ts : List TraceSt} {nt np np' : Nat} {w w' : W} (h : Sim ts n
     rcases hmem x hx with rfl | ⟨hx, n⟩
     · rw [hno]; exact h.ltT tr hm
     · exact h.ltT x hx
-  · rw [hst]; exact h.started
+  · intro t ht
+    rcases hst t ht with ht | rfl
+    · exact h.started t ht
+    · exact h.ltT tr hm
   · intro t c hc
     by_cases ht : t = tr.traceNo
     · rw [ht]; exact h.ltT tr hm
     · rw [hcalls t ht] at hc; exact h.callsLt t c hc
 
-/-- `Sim` together with a distinguished member -/
-structure Good (ts : List TraceSt) (nt np : Nat) (w : W) (tr : TraceSt) : Prop where
-  sim : Sim ts nt np w
-  mem : tr ∈ ts
-
-theorem good_of_frame {ts : List TraceSt} {nt np' : Nat} {w' : W} {tr tr' : TraceSt} (hm : tr ∈ ts)
-    (hno : tr'.traceNo = tr.traceNo) (h : Sim (setTrace ts tr') nt np' w') : Good (setTrace ts tr') nt np' w' tr' :=
-  ⟨h, mem_setTrace.mpr (Or.inl ⟨rfl, tr, hm, hno.symm⟩)⟩
-
 section events
-variable {ts : List TraceSt} {nt np : Nat} {w : W} {tr tr' : TraceSt}
+variable {ts : List TraceSt} {nt : Nat} {w : W} {tr tr' : TraceSt}
 
-theorem notPrompt_idle : notPrompt .idle := fun _ _ h => by cases h
-theorem notPrompt_call (c : CallInfo) : notPrompt (.call c) := fun _ _ h => by cases h
-theorem notPrompt_cmdloop (c : CallInfo) (b : Bool) : notPrompt (.cmdloop c b) := fun _ _ h => by cases h
+theorem notPrompt_of_call {ph : Phase} (h : phaseCall ph = none) : notPrompt ph := by
+  intro c p hp; rw [hp] at h; cases h
 
-theorem ev_startCall (h : Good ts nt np w tr) (hph : tr.phase = .idle) (hl : tr.ended = false)
-    (hno : tr'.traceNo = tr.traceNo) (c : CallInfo) (hph' : tr'.phase = .call c) :
-    ∃ w', wstep w (.startCall tr.traceNo c) = some w' ∧ Good (setTrace ts tr') nt np w' tr' := by
-  have hidle : alGet w.calls tr.traceNo = none := by rw [h.sim.calls tr h.mem, hph]; rfl
-  have hact : tr.traceNo ∈ w.active := h.sim.active tr h.mem hl
-  refine ⟨{ w with calls := alSet w.calls tr.traceNo c }, by simp [wstep, hidle, hact], good_of_frame h.mem hno ?_⟩
-  refine sim_frame h.sim h.mem hno (fun _ _ h => h) (fun t ht => alGet_alSet_ne _ _ _ _ ht) ?_ (fun _ _ _ h => h)
-    (fun _ => hact) ?_ ?_ rfl h.sim.ever h.sim.promptsEver
+/-- the grammar state does not move: hidden steps, command-loop events -/
+theorem sim_same (h : Sim ts nt w) (hm : tr ∈ ts) (hno : tr'.traceNo = tr.traceNo)
+    (hpc : phaseCall tr'.phase = phaseCall tr.phase) (hnp : notPrompt tr.phase) (hnp' : notPrompt tr'.phase)
+    (hn : tr.phase ≠ .numbered) (hnn : tr'.phase ≠ .numbered) (hen : tr'.ended = false → tr.ended = false) :
+    Sim (setTrace ts tr') nt w := by
+  refine sim_frame h hm hno hnn (fun _ _ h => h) (fun _ _ => rfl) ?_ (fun _ _ _ h => h)
+    (fun hl => h.active tr hm (hen hl) hn) ?_ ?_ (fun _ h => Or.inl h) h.promptsEver
   · intro e he
-    exact Or.inl ⟨he, h.sim.noPrompt h.mem (hph ▸ notPrompt_idle) e he⟩
+    exact Or.inl ⟨he, h.noPrompt hm hnp e he⟩
+  · rw [hpc]; exact h.calls tr hm
+  · intro c' p hc; exact absurd hc (hnp' c' p)
+
+theorem ev_startTrace (h : Sim ts nt w) (hm : tr ∈ ts) (hph : tr.phase = .numbered)
+    (hno : tr'.traceNo = tr.traceNo) (hph' : tr'.phase = .idle) (thn : Nat) (tkn : Option Nat) :
+    ∃ w', wstep w (.startTrace tr.traceNo thn tkn) = some w' ∧ Sim (setTrace ts tr') nt w' ∧
+      w'.promptsEver = w.promptsEver := by
+  have hfr : tr.traceNo ∉ w.started := h.fresh tr hm hph
+  have hidle : alGet w.calls tr.traceNo = none := by rw [h.calls tr hm, hph]; rfl
+  refine ⟨{ w with started := w.started ++ [tr.traceNo], active := w.active ++ [tr.traceNo] }, by simp [wstep, hfr], ?_, rfl⟩
+  refine sim_frame h hm hno (by rw [hph']; simp) (fun _ _ h => List.mem_append_left _ h) (fun _ _ => rfl) ?_
+    (fun _ _ _ h => h) (fun _ => by simp) ?_ ?_ ?_ h.promptsEver
+  · intro e he
+    exact Or.inl ⟨he, h.noPrompt hm (hph ▸ fun _ _ hp => by cases hp) e he⟩
+  · rw [hph']; exact hidle
+  · intro c' p hc; rw [hph'] at hc; cases hc
+  · intro t ht
+    simpa using ht
+
+theorem ev_startCall (h : Sim ts nt w) (hm : tr ∈ ts) (c : CallInfo) (hph : tr.phase = .callDrawn c) (hl : tr.ended = false)
+    (hno : tr'.traceNo = tr.traceNo) (hph' : tr'.phase = .call c) :
+    ∃ w', wstep w (.startCall tr.traceNo c) = some w' ∧ Sim (setTrace ts tr') nt w' ∧ w'.promptsEver = w.promptsEver := by
+  have hidle : alGet w.calls tr.traceNo = none := by rw [h.calls tr hm, hph]; rfl
+  have hact : tr.traceNo ∈ w.active := h.active tr hm hl (by rw [hph]; simp)
+  refine ⟨{ w with calls := alSet w.calls tr.traceNo c }, by simp [wstep, hidle, hact], ?_, rfl⟩
+  refine sim_frame h hm hno (by rw [hph']; simp) (fun _ _ h => h) (fun t ht => alGet_alSet_ne _ _ _ _ ht) ?_
+    (fun _ _ _ h => h) (fun _ => hact) ?_ ?_ (fun _ h => Or.inl h) h.promptsEver
+  · intro e he
+    exact Or.inl ⟨he, h.noPrompt hm (hph ▸ fun _ _ hp => by cases hp) e he⟩
   · rw [hph']; exact alGet_alSet_self ..
   · intro c' p hc; rw [hph'] at hc; cases hc
 
-/-- the command-loop events do not move the grammar state; the phase may change between non-prompt phases of the same call -/
-theorem ev_cmdloop (h : Good ts nt np w tr) (c : CallInfo) (hph : phaseCall tr.phase = some c) (hnp : notPrompt tr.phase)
-    (hno : tr'.traceNo = tr.traceNo) (hph' : phaseCall tr'.phase = some c) (hnp' : notPrompt tr'.phase)
-    (hen : tr'.ended = false → tr.ended = false) :
-    wstep w (.startCmdloop tr.traceNo c.callNo) = some w ∧ wstep w (.endCmdloop tr.traceNo c.callNo) = some w ∧
-    Good (setTrace ts tr') nt np w tr' := by
-  have hcall : alGet w.calls tr.traceNo = some c := by rw [h.sim.calls tr h.mem, hph]
-  refine ⟨by simp [wstep, hcall], by simp [wstep, hcall], good_of_frame h.mem hno ?_⟩
-  refine sim_frame h.sim h.mem hno (fun _ _ h => h) (fun _ _ => rfl) ?_ (fun _ _ _ h => h)
-    (fun hl => h.sim.active tr h.mem (hen hl)) ?_ ?_ rfl h.sim.ever h.sim.promptsEver
-  · intro e he
-    exact Or.inl ⟨he, h.sim.noPrompt h.mem hnp e he⟩
-  · rw [hph']; exact hcall
-  · intro c' p hc; exact absurd hc (hnp' c' p)
+/-- the command-loop events do not move the grammar state -/
+theorem ev_cmdloop (h : Sim ts nt w) (hm : tr ∈ ts) (c : CallInfo) (hph : phaseCall tr.phase = some c) :
+    wstep w (.startCmdloop tr.traceNo c.callNo) = some w ∧ wstep w (.endCmdloop tr.traceNo c.callNo) = some w := by
+  have hcall : alGet w.calls tr.traceNo = some c := by rw [h.calls tr hm, hph]
+  exact ⟨by simp [wstep, hcall], by simp [wstep, hcall]⟩
 
-theorem ev_startPrompt (h : Good ts nt np w tr) (c : CallInfo) (b : Bool) (hph : tr.phase = .cmdloop c b)
-    (hno : tr'.traceNo = tr.traceNo) (hph' : tr'.phase = .prompt c np) (hen : tr'.ended = false → tr.ended = false)
-    (text : Nat) :
-    ∃ w', wstep w (.startPrompt tr.traceNo c.callNo np text) = some w' ∧ Good (setTrace ts tr') nt (np + 1) w' tr' := by
-  have hcall : alGet w.calls tr.traceNo = some c := by rw [h.sim.calls tr h.mem, hph]; rfl
-  have hnone := h.sim.noPrompt h.mem (hph ▸ notPrompt_cmdloop c b)
-  have hfresh : np ∉ w.promptsEver := fun hin => Nat.lt_irrefl _ (h.sim.ever np hin)
-  refine ⟨{ w with prompts := alSet w.prompts np tr.traceNo, promptsEver := w.promptsEver ++ [np] }, ?_,
-    good_of_frame h.mem hno ?_⟩
+theorem ev_startPrompt (h : Sim ts nt w) (hm : tr ∈ ts) (c : CallInfo) (p : Nat) (hph : tr.phase = .promptDrawn c p)
+    (hfresh : p ∉ w.promptsEver) (hl : tr.ended = false)
+    (hno : tr'.traceNo = tr.traceNo) (hph' : tr'.phase = .prompt c p) (text : Nat) :
+    ∃ w', wstep w (.startPrompt tr.traceNo c.callNo p text) = some w' ∧ Sim (setTrace ts tr') nt w' ∧
+      w'.promptsEver = w.promptsEver ++ [p] := by
+  have hcall : alGet w.calls tr.traceNo = some c := by rw [h.calls tr hm, hph]; rfl
+  have hnone := h.noPrompt hm (hph ▸ fun _ _ hp => by cases hp)
+  refine ⟨{ w with prompts := alSet w.prompts p tr.traceNo, promptsEver := w.promptsEver ++ [p] }, ?_, ?_, rfl⟩
   · simp only [wstep, hcall]
     rw [if_pos ⟨trivial, hfresh, hnone⟩]
-  refine sim_frame h.sim h.mem hno (fun _ _ h => h) (fun _ _ => rfl) ?_ ?_
-    (fun hl => h.sim.active tr h.mem (hen hl)) ?_ ?_ rfl ?_ ?_
+  refine sim_frame h hm hno (by rw [hph']; simp) (fun _ _ h => h) (fun _ _ => rfl) ?_ ?_
+    (fun _ => h.active tr hm hl (by rw [hph]; simp)) ?_ ?_ (fun _ h => Or.inl h) ?_
   · intro e he
     rcases mem_alSet he with rfl | he
     · exact Or.inr ⟨rfl, c, hph'⟩
     · exact Or.inl ⟨he, hnone e he⟩
-  · intro p t _ hg
-    have hp : p ≠ np := by
+  · intro p' t _ hg
+    have hp : p' ≠ p := by
       intro hp; subst hp
-      exact hfresh (h.sim.promptsEver _ (alGet_some_mem hg))
-    show alGet (alSet w.prompts np tr.traceNo) p = some t
+      exact hfresh (h.promptsEver _ (alGet_some_mem hg))
+    show alGet (alSet w.prompts p tr.traceNo) p' = some t
     rw [alGet_alSet_ne _ _ _ _ hp]; exact hg
   · rw [hph']; exact hcall
-  · intro c' p hc
+  · intro c' p' hc
     rw [hph'] at hc; injection hc with _ hp; subst hp
     exact alGet_alSet_self ..
-  · intro p hp
-    simp only [List.mem_append, List.mem_singleton] at hp
-    rcases hp with hp | rfl
-    · exact Nat.lt_succ_of_lt (h.sim.ever p hp)
-    · exact Nat.lt_succ_self _
   · intro e he
     simp only [List.mem_append, List.mem_singleton]
     rcases mem_alSet he with rfl | he
     · exact Or.inr rfl
-    · exact Or.inl (h.sim.promptsEver e he)
+    · exact Or.inl (h.promptsEver e he)
 
-theorem ev_endPrompt (h : Good ts nt np w tr) (c : CallInfo) (p : Nat) (hph : tr.phase = .prompt c p)
-    (hno : tr'.traceNo = tr.traceNo) (hph' : phaseCall tr'.phase = some c) (hnp' : notPrompt tr'.phase)
-    (hen : tr'.ended = false → tr.ended = false) (cmd : Nat) :
-    ∃ w', wstep w (.endPrompt tr.traceNo p cmd) = some w' ∧ Good (setTrace ts tr') nt np w' tr' := by
-  have hcall : alGet w.calls tr.traceNo = some c := by rw [h.sim.calls tr h.mem, hph]; rfl
-  have hpr : alGet w.prompts p = some tr.traceNo := h.sim.prompts2 tr h.mem c p hph
-  refine ⟨{ w with prompts := alErase w.prompts p }, by simp [wstep, hpr], good_of_frame h.mem hno ?_⟩
-  refine sim_frame h.sim h.mem hno (fun _ _ h => h) (fun _ _ => rfl) ?_ ?_
-    (fun hl => h.sim.active tr h.mem (hen hl)) ?_ ?_ rfl h.sim.ever ?_
+theorem ev_endPrompt (h : Sim ts nt w) (hm : tr ∈ ts) (c : CallInfo) (p : Nat) (hph : tr.phase = .prompt c p)
+    (hl : tr.ended = false) (hno : tr'.traceNo = tr.traceNo) (hph' : tr'.phase = .cmdloop c) (cmd : Nat) :
+    ∃ w', wstep w (.endPrompt tr.traceNo p cmd) = some w' ∧ Sim (setTrace ts tr') nt w' ∧
+      w'.promptsEver = w.promptsEver := by
+  have hcall : alGet w.calls tr.traceNo = some c := by rw [h.calls tr hm, hph]; rfl
+  have hpr : alGet w.prompts p = some tr.traceNo := h.prompts2 tr hm c p hph
+  refine ⟨{ w with prompts := alErase w.prompts p }, by simp [wstep, hpr], ?_, rfl⟩
+  refine sim_frame h hm hno (by rw [hph']; simp) (fun _ _ h => h) (fun _ _ => rfl) ?_ ?_
+    (fun _ => h.active tr hm hl (by rw [hph]; simp)) ?_ ?_ (fun _ h => Or.inl h) ?_
   · intro e he
     obtain ⟨he, hne⟩ := mem_alErase he
     refine Or.inl ⟨he, ?_⟩
     intro heq
-    obtain ⟨x, hx, hxt, c', hc'⟩ := h.sim.prompts1 e he
-    have := h.sim.uniq x hx tr h.mem (hxt.trans heq)
+    obtain ⟨x, hx, hxt, c', hc'⟩ := h.prompts1 e he
+    have := h.uniq x hx tr hm (hxt.trans heq)
     subst this
     rw [hph] at hc'; injection hc' with _ hp
     exact hne hp.symm
@@ -895,296 +1398,193 @@ theorem ev_endPrompt (h : Good ts nt np w tr) (c : CallInfo) (p : Nat) (hph : tr
     show alGet (alErase w.prompts p) p' = some t
     rw [alGet_alErase_ne _ _ _ hp]; exact hg
   · rw [hph']; exact hcall
-  · intro c' p' hc; exact absurd hc (hnp' c' p')
-  · intro e he; exact h.sim.promptsEver e (mem_alErase he).1
+  · intro c' p' hc; rw [hph'] at hc; cases hc
+  · intro e he; exact h.promptsEver e (mem_alErase he).1
 
-theorem ev_endCall (h : Good ts nt np w tr) (c : CallInfo) (hph : tr.phase = .call c)
-    (hno : tr'.traceNo = tr.traceNo) (hph' : tr'.phase = .idle) (hen : tr'.ended = false → tr.ended = false) :
-    ∃ w', wstep w (.endCall tr.traceNo c.callNo) = some w' ∧ Good (setTrace ts tr') nt np w' tr' := by
-  have hcall : alGet w.calls tr.traceNo = some c := by rw [h.sim.calls tr h.mem, hph]; rfl
-  have hnone := h.sim.noPrompt h.mem (hph ▸ notPrompt_call c)
-  refine ⟨{ w with calls := alErase w.calls tr.traceNo }, ?_, good_of_frame h.mem hno ?_⟩
+theorem ev_endCall (h : Sim ts nt w) (hm : tr ∈ ts) (c : CallInfo) (hph : tr.phase = .call c) (hl : tr.ended = false)
+    (hno : tr'.traceNo = tr.traceNo) (hph' : tr'.phase = .idle) :
+    ∃ w', wstep w (.endCall tr.traceNo c.callNo) = some w' ∧ Sim (setTrace ts tr') nt w' ∧
+      w'.promptsEver = w.promptsEver := by
+  have hcall : alGet w.calls tr.traceNo = some c := by rw [h.calls tr hm, hph]; rfl
+  have hnone := h.noPrompt hm (hph ▸ fun _ _ hp => by cases hp)
+  refine ⟨{ w with calls := alErase w.calls tr.traceNo }, ?_, ?_, rfl⟩
   · simp only [wstep, hcall]
     rw [if_pos ⟨trivial, hnone⟩]
-  refine sim_frame h.sim h.mem hno (fun _ _ h => h) (fun t ht => alGet_alErase_ne _ _ _ ht) ?_ (fun _ _ _ h => h)
-    (fun hl => h.sim.active tr h.mem (hen hl)) ?_ ?_ rfl h.sim.ever h.sim.promptsEver
+  refine sim_frame h hm hno (by rw [hph']; simp) (fun _ _ h => h) (fun t ht => alGet_alErase_ne _ _ _ ht) ?_
+    (fun _ _ _ h => h) (fun _ => h.active tr hm hl (by rw [hph]; simp)) ?_ ?_ (fun _ h => Or.inl h) h.promptsEver
   · intro e he
     exact Or.inl ⟨he, hnone e he⟩
   · rw [hph']; exact alGet_alErase_self ..
   · intro c' p hc; rw [hph'] at hc; cases hc
 
-theorem ev_endTrace (h : Good ts nt np w tr) (hph : tr.phase = .idle) (hl : tr.ended = false)
+theorem ev_endTrace (h : Sim ts nt w) (hm : tr ∈ ts) (hph : tr.phase = .idle) (hl : tr.ended = false)
     (hno : tr'.traceNo = tr.traceNo) (hph' : tr'.phase = .idle) (hen : tr'.ended = true) :
-    ∃ w', wstep w (.endTrace tr.traceNo) = some w' ∧ Good (setTrace ts tr') nt np w' tr' := by
-  have hidle : alGet w.calls tr.traceNo = none := by rw [h.sim.calls tr h.mem, hph]; rfl
-  have hact : tr.traceNo ∈ w.active := h.sim.active tr h.mem hl
-  refine ⟨{ w with active := w.active.erase tr.traceNo }, by simp [wstep, hidle, hact], good_of_frame h.mem hno ?_⟩
-  refine sim_frame h.sim h.mem hno ?_ (fun _ _ => rfl) ?_ (fun _ _ _ h => h)
-    (fun hl' => by rw [hen] at hl'; cases hl') ?_ ?_ rfl h.sim.ever h.sim.promptsEver
+    ∃ w', wstep w (.endTrace tr.traceNo) = some w' ∧ Sim (setTrace ts tr') nt w' ∧ w'.promptsEver = w.promptsEver := by
+  have hidle : alGet w.calls tr.traceNo = none := by rw [h.calls tr hm, hph]; rfl
+  have hact : tr.traceNo ∈ w.active := h.active tr hm hl (by rw [hph]; simp)
+  refine ⟨{ w with active := w.active.erase tr.traceNo }, by simp [wstep, hidle, hact], ?_, rfl⟩
+  refine sim_frame h hm hno (by rw [hph']; simp) ?_ (fun _ _ => rfl) ?_ (fun _ _ _ h => h)
+    (fun hl' => by rw [hen] at hl'; cases hl') ?_ ?_ (fun _ h => Or.inl h) h.promptsEver
   · intro t ht hin
     exact (List.mem_erase_of_ne ht).mpr hin
   · intro e he
-    exact Or.inl ⟨he, h.sim.noPrompt h.mem (hph ▸ notPrompt_idle) e he⟩
+    exact Or.inl ⟨he, h.noPrompt hm (hph ▸ fun _ _ hp => by cases hp) e he⟩
   · rw [hph']; exact hidle
   · intro c' p hc; rw [hph'] at hc; cases hc
 
 end events
 
-theorem wrun_cons_of {w w' : W} {e : Ev} (h : wstep w e = some w') (es : List Ev) : wrun w (e :: es) = wrun w' es := by
+theorem wrun_single {w w' : W} {e : Ev} (h : wstep w e = some w') : wrun w [e] = some w' := by
   simp only [wrun, h]
 
 /-- a local transition of a live trace is accepted by the grammar, and the simulation is kept -/
-theorem sim_local {ts : List TraceSt} {nt np : Nat} {w : W} {tr : TraceSt} (h : Good ts nt np w tr)
-    (hl : tr.ended = false) {nc : Nat} {a : Act} {ph' : Phase} {en' : Bool} {evs : List Ev} {nc' np' : Nat}
-    (hL : Local tr.traceNo nc np tr.phase a ph' en' evs nc' np') :
-    ∃ w', wrun w evs = some w' ∧ Sim (setTrace ts { tr with phase := ph', ended := en' }) nt np' w' := by
+theorem sim_local {ts : List TraceSt} {nt : Nat} {w : W} {tr : TraceSt} (h : Sim ts nt w) (hm : tr ∈ ts)
+    (hl : tr.ended = false) (hfresh : ∀ c p, tr.phase = .promptDrawn c p → p ∉ w.promptsEver)
+    {nc np : Nat} {a : Act} {ph' : Phase} {en' : Bool} {evs : List Ev} {nc' np' : Nat}
+    (hL : Local tr.traceNo tr.threadNo tr.taskNo nc np tr.phase a ph' en' evs nc' np') :
+    ∃ w', wrun w evs = some w' ∧ Sim (setTrace ts { tr with phase := ph', ended := en' }) nt w' ∧
+      w'.promptsEver = w.promptsEver ++ promptNos evs := by
   obtain ⟨ent, no, thn, tkn, ph, en⟩ := tr
   simp only at hl; subst hl
-  simp only at hL
+  simp only at hL hfresh
+  have np0 : ∀ {ph : Phase}, phaseCall ph = none → notPrompt ph := notPrompt_of_call
   cases hL with
-  | enter f l fr ev =>
-    obtain ⟨w1, hw1, g1⟩ := ev_startCall (tr' := ⟨ent, no, thn, tkn, .call ⟨nc, f, l, fr, ev⟩, false⟩) h rfl rfl rfl _ rfl
-    exact ⟨w1, (wrun_cons_of hw1 _).trans rfl, g1.sim⟩
+  | emitStart =>
+    obtain ⟨w1, hw1, g1, e1⟩ := ev_startTrace (tr' := ⟨ent, no, thn, tkn, .idle, false⟩) h hm rfl rfl rfl thn tkn
+    exact ⟨w1, wrun_single hw1, g1, by simpa [promptNos] using e1⟩
+  | drawCall f l fr ev =>
+    exact ⟨w, rfl, sim_same (tr' := ⟨ent, no, thn, tkn, .callDrawn ⟨nc, f, l, fr, ev⟩, false⟩) h hm rfl rfl
+      (np0 rfl) (np0 rfl) (by simp) (by simp) (fun _ => rfl), by simp [promptNos]⟩
+  | emitCall c =>
+    obtain ⟨w1, hw1, g1, e1⟩ := ev_startCall (tr' := ⟨ent, no, thn, tkn, .call c, false⟩) h hm c rfl rfl rfl rfl
+    exact ⟨w1, wrun_single hw1, g1, by simpa [promptNos] using e1⟩
   | stop c =>
-    obtain ⟨hw1, _, g1⟩ := ev_cmdloop (tr' := ⟨ent, no, thn, tkn, .cmdloop c false, false⟩) h c rfl (notPrompt_call c)
-      rfl rfl (notPrompt_cmdloop c false) (fun _ => rfl)
-    exact ⟨w, (wrun_cons_of hw1 _).trans rfl, g1.sim⟩
-  | prompt c b text =>
-    obtain ⟨w1, hw1, g1⟩ := ev_startPrompt (tr' := ⟨ent, no, thn, tkn, .prompt c np, false⟩) h c b rfl rfl rfl
-      (fun _ => rfl) text
-    exact ⟨w1, (wrun_cons_of hw1 _).trans rfl, g1.sim⟩
-  | answerT c p cmd =>
-    obtain ⟨w1, hw1, g1⟩ := ev_endPrompt (tr' := ⟨ent, no, thn, tkn, .cmdloop c true, false⟩) h c p rfl rfl rfl
-      (notPrompt_cmdloop c true) (fun _ => rfl) cmd
-    obtain ⟨_, hw2, g2⟩ := ev_cmdloop (tr' := ⟨ent, no, thn, tkn, .call c, false⟩) g1 c rfl (notPrompt_cmdloop c true)
-      rfl rfl (notPrompt_call c) (fun _ => rfl)
-    rw [setTrace_setTrace ts (⟨ent, no, thn, tkn, .cmdloop c true, false⟩ : TraceSt) (⟨ent, no, thn, tkn, .call c, false⟩ : TraceSt) rfl] at g2
-    exact ⟨w1, (wrun_cons_of hw1 _).trans ((wrun_cons_of hw2 _).trans rfl), g2.sim⟩
-  | answerF c p cmd =>
-    obtain ⟨w1, hw1, g1⟩ := ev_endPrompt (tr' := ⟨ent, no, thn, tkn, .cmdloop c true, false⟩) h c p rfl rfl rfl
-      (notPrompt_cmdloop c true) (fun _ => rfl) cmd
-    exact ⟨w1, (wrun_cons_of hw1 _).trans rfl, g1.sim⟩
+    have hw1 := (ev_cmdloop h hm c rfl).1
+    exact ⟨w, wrun_single hw1, sim_same (tr' := ⟨ent, no, thn, tkn, .cmdloop c, false⟩) h hm rfl rfl
+      (fun _ _ hp => by cases hp) (fun _ _ hp => by cases hp) (by simp) (by simp) (fun _ => rfl), by simp [promptNos]⟩
+  | drawPrompt c =>
+    exact ⟨w, rfl, sim_same (tr' := ⟨ent, no, thn, tkn, .promptDrawn c np, false⟩) h hm rfl rfl
+      (fun _ _ hp => by cases hp) (fun _ _ hp => by cases hp) (by simp) (by simp) (fun _ => rfl), by simp [promptNos]⟩
+  | emitPrompt c p text =>
+    obtain ⟨w1, hw1, g1, e1⟩ := ev_startPrompt (tr' := ⟨ent, no, thn, tkn, .prompt c p, false⟩) h hm c p rfl
+      (hfresh c p rfl) rfl rfl rfl text
+    exact ⟨w1, wrun_single hw1, g1, by simpa [promptNos] using e1⟩
+  | answer c p cmd =>
+    obtain ⟨w1, hw1, g1, e1⟩ := ev_endPrompt (tr' := ⟨ent, no, thn, tkn, .cmdloop c, false⟩) h hm c p rfl rfl rfl rfl cmd
+    exact ⟨w1, wrun_single hw1, g1, by simpa [promptNos] using e1⟩
+  | endLoop c =>
+    have hw1 := (ev_cmdloop h hm c rfl).2
+    exact ⟨w, wrun_single hw1, sim_same (tr' := ⟨ent, no, thn, tkn, .call c, false⟩) h hm rfl rfl
+      (fun _ _ hp => by cases hp) (fun _ _ hp => by cases hp) (by simp) (by simp) (fun _ => rfl), by simp [promptNos]⟩
+  | endLoopD c p =>
+    have hw1 := (ev_cmdloop h hm c rfl).2
+    exact ⟨w, wrun_single hw1, sim_same (tr' := ⟨ent, no, thn, tkn, .call c, false⟩) h hm rfl rfl
+      (fun _ _ hp => by cases hp) (fun _ _ hp => by cases hp) (by simp) (by simp) (fun _ => rfl), by simp [promptNos]⟩
   | leave c =>
-    obtain ⟨w1, hw1, g1⟩ := ev_endCall (tr' := ⟨ent, no, thn, tkn, .idle, false⟩) h c rfl rfl rfl (fun _ => rfl)
-    exact ⟨w1, (wrun_cons_of hw1 _).trans rfl, g1.sim⟩
-  | abort _ hne =>
-    cases ph with
-    | idle => exact absurd rfl hne
-    | call c =>
-      obtain ⟨w1, hw1, g1⟩ := ev_endCall (tr' := ⟨ent, no, thn, tkn, .idle, false⟩) h c rfl rfl rfl (fun _ => rfl)
-      exact ⟨w1, (wrun_cons_of hw1 _).trans rfl, g1.sim⟩
-    | cmdloop c b =>
-      obtain ⟨_, hw1, g1⟩ := ev_cmdloop (tr' := ⟨ent, no, thn, tkn, .call c, false⟩) h c rfl (notPrompt_cmdloop c b)
-        rfl rfl (notPrompt_call c) (fun _ => rfl)
-      obtain ⟨w2, hw2, g2⟩ := ev_endCall (tr' := ⟨ent, no, thn, tkn, .idle, false⟩) g1 c rfl rfl rfl (fun _ => rfl)
-      rw [setTrace_setTrace ts (⟨ent, no, thn, tkn, .call c, false⟩ : TraceSt) (⟨ent, no, thn, tkn, .idle, false⟩ : TraceSt) rfl] at g2
-      exact ⟨w2, (wrun_cons_of hw1 _).trans ((wrun_cons_of hw2 _).trans rfl), g2.sim⟩
-    | prompt c p =>
-      obtain ⟨w1, hw1, g1⟩ := ev_endPrompt (tr' := ⟨ent, no, thn, tkn, .cmdloop c true, false⟩) h c p rfl rfl rfl
-        (notPrompt_cmdloop c true) (fun _ => rfl) 0
-      obtain ⟨_, hw2, g2⟩ := ev_cmdloop (tr' := ⟨ent, no, thn, tkn, .call c, false⟩) g1 c rfl (notPrompt_cmdloop c true)
-        rfl rfl (notPrompt_call c) (fun _ => rfl)
-      rw [setTrace_setTrace ts (⟨ent, no, thn, tkn, .cmdloop c true, false⟩ : TraceSt) (⟨ent, no, thn, tkn, .call c, false⟩ : TraceSt) rfl] at g2
-      obtain ⟨w3, hw3, g3⟩ := ev_endCall (tr' := ⟨ent, no, thn, tkn, .idle, false⟩) g2 c rfl rfl rfl (fun _ => rfl)
-      rw [setTrace_setTrace ts (⟨ent, no, thn, tkn, .call c, false⟩ : TraceSt) (⟨ent, no, thn, tkn, .idle, false⟩ : TraceSt) rfl] at g3
-      exact ⟨w3, (wrun_cons_of hw1 _).trans ((wrun_cons_of hw2 _).trans ((wrun_cons_of hw3 _).trans rfl)), g3.sim⟩
+    obtain ⟨w1, hw1, g1, e1⟩ := ev_endCall (tr' := ⟨ent, no, thn, tkn, .idle, false⟩) h hm c rfl rfl rfl rfl
+    exact ⟨w1, wrun_single hw1, g1, by simpa [promptNos] using e1⟩
   | finish =>
-    obtain ⟨w1, hw1, g1⟩ := ev_endTrace (tr' := ⟨ent, no, thn, tkn, .idle, true⟩) h rfl rfl rfl rfl rfl
-    exact ⟨w1, (wrun_cons_of hw1 _).trans rfl, g1.sim⟩
+    obtain ⟨w1, hw1, g1, e1⟩ := ev_endTrace (tr' := ⟨ent, no, thn, tkn, .idle, true⟩) h hm rfl rfl rfl rfl rfl
+    exact ⟨w1, wrun_single hw1, g1, by simpa [promptNos] using e1⟩
 
 /-- the stream emitted so far is accepted by the grammar, in a state that mirrors the traces -/
-def WInv (s : St) : Prop := ∃ w, wrun {} s.out = some w ∧ Sim s.traces s.nextTrace s.nextPrompt w
+def WInv (s : St) : Prop :=
+  ∃ w, wrun {} s.out = some w ∧ Sim s.traces s.nextTrace w ∧ w.promptsEver = promptNos s.out
 
-theorem wInv_init : WInv {} := ⟨{}, rfl, sim_init⟩
+theorem wInv_init : WInv {} := ⟨{}, rfl, sim_init, rfl⟩
 
-theorem wInv_lstep {s s' : St} {e : Ent} {a : Act} (h : WInv s) (hs : LStep s e a s') : WInv s' := by
+theorem wInv_lstep {s s' : St} {e : Ent} {a : Act} (hn : NumInv s) (h : WInv s) (hs : LStep s e a s') : WInv s' := by
   obtain ⟨tr, ph', en', evs, nc', np', hf, hL, rfl⟩ := hs
   obtain ⟨hm, _, hl⟩ := findTrace_some hf
-  obtain ⟨w, hw, hsim⟩ := h
-  obtain ⟨w', hw', hsim'⟩ := sim_local ⟨hsim, hm⟩ hl hL
-  refine ⟨w', ?_, hsim'⟩
-  show wrun {} (s.out ++ evs) = some w'
-  rw [wrun_append, hw]; exact hw'
+  obtain ⟨w, hw, hsim, hpe⟩ := h
+  have hfresh : ∀ c p, tr.phase = .promptDrawn c p → p ∉ w.promptsEver := by
+    intro c p hph
+    rw [hpe]
+    exact hn.prompt.hFresh tr hm p (by rw [hph]; rfl)
+  obtain ⟨w', hw', hsim', hpe'⟩ := sim_local hsim hm hl hfresh hL
+  refine ⟨w', ?_, hsim', ?_⟩
+  · show wrun {} (s.out ++ evs) = some w'
+    rw [wrun_append, hw]; exact hw'
+  · show w'.promptsEver = promptNos (s.out ++ evs)
+    rw [hpe', hpe, promptNos_append]
 
-theorem wInv_addTrace {s : St} {e : Ent} (h : WInv s) : WInv (addTrace s e) := by
-  obtain ⟨w, hw, hsim⟩ := h
-  have hns : s.nextTrace ∉ w.started := fun hin => Nat.lt_irrefl _ (hsim.started _ hin)
-  refine ⟨{ w with started := w.started ++ [s.nextTrace], active := w.active ++ [s.nextTrace] }, ?_, ?_⟩
-  · rw [addTrace_out, wrun_append, hw]
-    simp [wrun, wstep, hns]
-  · rw [addTrace_traces, addTrace_nextTrace, addTrace_nextPrompt]
-    have hnew : ∀ x ∈ s.traces ++ [newTrace s e], x ∈ s.traces ∨ x = newTrace s e := by
-      intro x hx; simpa using hx
-    refine ⟨?_, ?_, ?_, ?_, ?_, ?_, ?_, ?_, hsim.ever, hsim.promptsEver⟩
-    · intro t1 h1 t2 h2 h12
-      rcases hnew t1 h1 with h1 | rfl <;> rcases hnew t2 h2 with h2 | rfl
-      · exact hsim.uniq t1 h1 t2 h2 h12
-      · have := hsim.ltT t1 h1; rw [h12] at this; exact absurd this (Nat.lt_irrefl _)
-      · have := hsim.ltT t2 h2; rw [← h12] at this; exact absurd this (Nat.lt_irrefl _)
-      · rfl
-    · intro x hx hl
-      simp only [List.mem_append, List.mem_singleton]
-      rcases hnew x hx with hx | rfl
-      · exact Or.inl (hsim.active x hx hl)
-      · exact Or.inr rfl
-    · intro x hx
-      rcases hnew x hx with hx | rfl
-      · exact hsim.calls x hx
-      · show alGet w.calls s.nextTrace = none
-        cases hc : alGet w.calls s.nextTrace with
-        | none => rfl
-        | some c => exact absurd (hsim.callsLt _ c hc) (Nat.lt_irrefl _)
-    · intro p hp
-      obtain ⟨x, hx, h1, h2⟩ := hsim.prompts1 p hp
-      exact ⟨x, List.mem_append_left _ hx, h1, h2⟩
-    · intro x hx c p hph
-      rcases hnew x hx with hx | rfl
-      · exact hsim.prompts2 x hx c p hph
-      · cases hph
-    · intro x hx
-      rcases hnew x hx with hx | rfl
-      · exact Nat.lt_succ_of_lt (hsim.ltT x hx)
-      · exact Nat.lt_succ_self _
-    · intro t ht
-      simp only [List.mem_append, List.mem_singleton] at ht
-      rcases ht with ht | rfl
-      · exact Nat.lt_succ_of_lt (hsim.started t ht)
-      · exact Nat.lt_succ_self _
-    · intro t c hc
-      exact Nat.lt_succ_of_lt (hsim.callsLt t c hc)
+theorem wInv_moveNewcomer {s : St} {e : Ent} {n : Newcomer} (h : WInv s) : WInv (moveNewcomer s e n) := by
+  obtain ⟨w, hw, hsim, hpe⟩ := h
+  refine ⟨w, hw, ?_, hpe⟩
+  show Sim (s.traces ++ [mkTrace s e n]) (s.nextTrace + 1) w
+  have hnew : ∀ x ∈ s.traces ++ [mkTrace s e n], x ∈ s.traces ∨ x = mkTrace s e n := by
+    intro x hx; simpa using hx
+  refine ⟨?_, ?_, ?_, ?_, ?_, ?_, ?_, ?_, ?_, hsim.promptsEver⟩
+  · intro t1 h1 t2 h2 h12
+    rcases hnew t1 h1 with h1 | rfl <;> rcases hnew t2 h2 with h2 | rfl
+    · exact hsim.uniq t1 h1 t2 h2 h12
+    · have := hsim.ltT t1 h1; rw [h12] at this; exact absurd this (Nat.lt_irrefl _)
+    · have := hsim.ltT t2 h2; rw [← h12] at this; exact absurd this (Nat.lt_irrefl _)
+    · rfl
+  · intro x hx hl hxn
+    rcases hnew x hx with hx | rfl
+    · exact hsim.active x hx hl hxn
+    · exact absurd rfl hxn
+  · intro x hx hxn hin
+    rcases hnew x hx with hx | rfl
+    · exact hsim.fresh x hx hxn hin
+    · exact Nat.lt_irrefl _ (hsim.started _ hin)
+  · intro x hx
+    rcases hnew x hx with hx | rfl
+    · exact hsim.calls x hx
+    · show alGet w.calls s.nextTrace = none
+      cases hc : alGet w.calls s.nextTrace with
+      | none => rfl
+      | some c => exact absurd (hsim.callsLt _ c hc) (Nat.lt_irrefl _)
+  · intro p hp
+    obtain ⟨x, hx, h1, h2⟩ := hsim.prompts1 p hp
+    exact ⟨x, List.mem_append_left _ hx, h1, h2⟩
+  · intro x hx c p hph
+    rcases hnew x hx with hx | rfl
+    · exact hsim.prompts2 x hx c p hph
+    · cases hph
+  · intro x hx
+    rcases hnew x hx with hx | rfl
+    · exact Nat.lt_succ_of_lt (hsim.ltT x hx)
+    · exact Nat.lt_succ_self _
+  · intro t ht
+    exact Nat.lt_succ_of_lt (hsim.started t ht)
+  · intro t c hc
+    exact Nat.lt_succ_of_lt (hsim.callsLt t c hc)
 
-theorem wInv_step {s s' : St} {e : Ent} {a : Act} (h : WInv s) (hs : step s e a = some s') : WInv s' := by
-  rcases step_cases hs with hl | ⟨_, _, hl⟩ | ⟨rfl, _⟩ | ⟨rfl, _⟩ | ⟨tr, text, _, _, rfl⟩
-  · exact wInv_lstep h hl
-  · exact wInv_lstep (wInv_addTrace h) hl
+theorem wInv_addNewcomer {s : St} {e : Ent} (h : WInv s) : WInv (addNewcomer s e) := by
+  obtain ⟨w, hw, hsim, hpe⟩ := h
+  refine ⟨w, ?_, ?_, ?_⟩
+  · rw [addNewcomer_out]; exact hw
+  · rw [addNewcomer_traces, addNewcomer_nextTrace]; exact hsim
+  · rw [addNewcomer_out]; exact hpe
+
+theorem wInv_step {s s' : St} {e : Ent} {a : Act} (hn : NumInv s) (h : WInv s) (hs : step s e a = some s') : WInv s' := by
+  rcases step_cases hs with hl | ⟨_, _, _, rfl⟩ | ⟨_, n, _, rfl⟩ | ⟨rfl, _⟩ | ⟨rfl, _⟩ | ⟨tr, text, _, _, rfl⟩
+  · exact wInv_lstep hn h hl
+  · exact wInv_addNewcomer h
+  · exact wInv_moveNewcomer h
   · exact h
   · exact h
-  · obtain ⟨w, hw, hsim⟩ := h
-    refine ⟨w, ?_, hsim⟩
-    show wrun {} (s.out ++ [.stdout tr.traceNo text]) = some w
-    rw [wrun_append, hw]; rfl
-
-/-! ### invariant: the numbers in the stream -/
-
-theorem callNos_append (a b : List Ev) : callNos (a ++ b) = callNos a ++ callNos b := by simp [callNos]
-theorem promptNos_append (a b : List Ev) : promptNos (a ++ b) = promptNos a ++ promptNos b := by simp [promptNos]
-theorem traceNos_append (a b : List Ev) : traceNos (a ++ b) = traceNos a ++ traceNos b := by simp [traceNos]
-
-/-- what a local transition contributes to the three number sequences -/
-theorem local_numbers {t nc np : Nat} {ph : Phase} {a : Act} {ph' : Phase} {en' : Bool} {evs : List Ev} {nc' np' : Nat}
-    (hL : Local t nc np ph a ph' en' evs nc' np') :
-    traceNos evs = [] ∧ ((callNos evs = [] ∧ nc' = nc) ∨ (callNos evs = [nc] ∧ nc' = nc + 1)) ∧
-    ((promptNos evs = [] ∧ np' = np) ∨ (promptNos evs = [np] ∧ np' = np + 1)) := by
-  cases hL with
-  | abort ph _ => cases ph <;> simp [traceNos, callNos, promptNos, unwind]
-  | _ => simp [traceNos, callNos, promptNos]
-
-/-- every event of a local transition carries the trace number -/
-theorem local_evTrace {t nc np : Nat} {ph : Phase} {a : Act} {ph' : Phase} {en' : Bool} {evs : List Ev} {nc' np' : Nat}
-    (hL : Local t nc np ph a ph' en' evs nc' np') : ∀ ev ∈ evs, evTrace ev = t := by
-  cases hL with
-  | abort ph _ => cases ph <;> simp [evTrace, unwind]
-  | _ => simp [evTrace]
-
-structure NumInv (s : St) : Prop where
-  tr : traceNos s.out = (List.range (s.nextTrace - 1)).map (· + 1)
-  trPos : 1 ≤ s.nextTrace
-  callLt : ∀ c ∈ callNos s.out, c < s.nextCall
-  callInc : (callNos s.out).Pairwise (· < ·)
-  prLt : ∀ p ∈ promptNos s.out, p < s.nextPrompt
-  prInc : (promptNos s.out).Pairwise (· < ·)
-
-theorem numInv_init : NumInv {} := ⟨rfl, Nat.le_refl _, by simp [callNos], by simp [callNos], by simp [promptNos],
-  by simp [promptNos]⟩
-
-theorem pairwise_lt_snoc {l : List Nat} {n : Nat} (h : l.Pairwise (· < ·)) (hl : ∀ x ∈ l, x < n) :
-    (l ++ [n]).Pairwise (· < ·) := by
-  rw [List.pairwise_append]
-  refine ⟨h, by simp, ?_⟩
-  intro a ha b hb
-  simp only [List.mem_singleton] at hb
-  subst hb
-  exact hl a ha
-
-theorem numInv_lstep {s s' : St} {e : Ent} {a : Act} (h : NumInv s) (hs : LStep s e a s') : NumInv s' := by
-  obtain ⟨tr, ph', en', evs, nc', np', hf, hL, rfl⟩ := hs
-  obtain ⟨ht, hc, hp⟩ := local_numbers hL
-  refine ⟨?_, h.trPos, ?_, ?_, ?_, ?_⟩
-  · show traceNos (s.out ++ evs) = _
-    rw [traceNos_append, ht, List.append_nil]; exact h.tr
-  · show ∀ c ∈ callNos (s.out ++ evs), c < nc'
-    rw [callNos_append]
-    rcases hc with ⟨hc, rfl⟩ | ⟨hc, rfl⟩ <;> rw [hc]
-    · simpa using h.callLt
-    · intro c hc'
-      simp only [List.mem_append, List.mem_singleton] at hc'
-      rcases hc' with hc' | rfl
-      · exact Nat.lt_succ_of_lt (h.callLt c hc')
-      · exact Nat.lt_succ_self _
-  · show (callNos (s.out ++ evs)).Pairwise (· < ·)
-    rw [callNos_append]
-    rcases hc with ⟨hc, _⟩ | ⟨hc, _⟩ <;> rw [hc]
-    · simpa using h.callInc
-    · exact pairwise_lt_snoc h.callInc h.callLt
-  · show ∀ c ∈ promptNos (s.out ++ evs), c < np'
-    rw [promptNos_append]
-    rcases hp with ⟨hp, rfl⟩ | ⟨hp, rfl⟩ <;> rw [hp]
-    · simpa using h.prLt
-    · intro c hc'
-      simp only [List.mem_append, List.mem_singleton] at hc'
-      rcases hc' with hc' | rfl
-      · exact Nat.lt_succ_of_lt (h.prLt c hc')
-      · exact Nat.lt_succ_self _
-  · show (promptNos (s.out ++ evs)).Pairwise (· < ·)
-    rw [promptNos_append]
-    rcases hp with ⟨hp, _⟩ | ⟨hp, _⟩ <;> rw [hp]
-    · simpa using h.prInc
-    · exact pairwise_lt_snoc h.prInc h.prLt
-
-theorem numInv_addTrace {s : St} {e : Ent} (h : NumInv s) : NumInv (addTrace s e) := by
-  refine ⟨?_, ?_, ?_, ?_, ?_, ?_⟩
-  · rw [addTrace_out, addTrace_nextTrace, traceNos_append, h.tr]
-    have hp := h.trPos
-    have e1 : s.nextTrace + 1 - 1 = (s.nextTrace - 1) + 1 := by omega
-    rw [e1, List.range_succ, List.map_append]
-    have e2 : s.nextTrace - 1 + 1 = s.nextTrace := by omega
-    simp [traceNos, e2]
-  · rw [addTrace_nextTrace]; exact Nat.le_add_left _ _
-  · rw [addTrace_out, addTrace_nextCall, callNos_append]; simpa [callNos] using h.callLt
-  · rw [addTrace_out, callNos_append]; simpa [callNos] using h.callInc
-  · rw [addTrace_out, addTrace_nextPrompt, promptNos_append]; simpa [promptNos] using h.prLt
-  · rw [addTrace_out, promptNos_append]; simpa [promptNos] using h.prInc
-
-theorem numInv_step {s s' : St} {e : Ent} {a : Act} (h : NumInv s) (hs : step s e a = some s') : NumInv s' := by
-  rcases step_cases hs with hl | ⟨_, _, hl⟩ | ⟨rfl, _⟩ | ⟨rfl, _⟩ | ⟨tr, text, _, _, rfl⟩
-  · exact numInv_lstep h hl
-  · exact numInv_lstep (numInv_addTrace h) hl
-  · exact h
-  · exact h
-  · refine ⟨?_, h.trPos, ?_, ?_, ?_, ?_⟩
-    · show traceNos (s.out ++ _) = _
-      rw [traceNos_append]; simpa [traceNos] using h.tr
-    · show ∀ c ∈ callNos (s.out ++ _), c < s.nextCall
-      rw [callNos_append]; simpa [callNos] using h.callLt
-    · show (callNos (s.out ++ _)).Pairwise (· < ·)
-      rw [callNos_append]; simpa [callNos] using h.callInc
-    · show ∀ c ∈ promptNos (s.out ++ _), c < s.nextPrompt
-      rw [promptNos_append]; simpa [promptNos] using h.prLt
-    · show (promptNos (s.out ++ _)).Pairwise (· < ·)
-      rw [promptNos_append]; simpa [promptNos] using h.prInc
+  · obtain ⟨w, hw, hsim, hpe⟩ := h
+    refine ⟨w, ?_, hsim, ?_⟩
+    · show wrun {} (s.out ++ [.stdout tr.traceNo text]) = some w
+      rw [wrun_append, hw]; rfl
+    · show w.promptsEver = promptNos (s.out ++ [.stdout tr.traceNo text])
+      rw [hpe, promptNos_append]; simp [promptNos]
 
 /-! ### all invariants hold in every reachable state -/
 
 structure Inv (s : St) : Prop where
   tr : TrInv s
   id : IdInv s
-  w : WInv s
   num : NumInv s
+  w : WInv s
 
-theorem inv_init : Inv {} := ⟨trInv_init, idInv_init, wInv_init, numInv_init⟩
+theorem inv_init : Inv {} := ⟨trInv_init, idInv_init, numInv_init, wInv_init⟩
 
 theorem inv_step {s s' : St} {e : Ent} {a : Act} (h : Inv s) (hs : step s e a = some s') : Inv s' :=
-  ⟨trInv_step h.tr hs, idInv_step h.id hs, wInv_step h.w hs, numInv_step h.num hs⟩
+  ⟨trInv_step h.tr hs, idInv_step h.id hs, numInv_step h.tr h.num hs, wInv_step h.num h.w hs⟩
 
 theorem inv_run {s0 s : St} {ls : List (Ent × Act)} (h : Inv s0) (hr : run s0 ls = some s) : Inv s := by
   induction ls generalizing s0 with
@@ -1198,30 +1598,29 @@ theorem inv_run {s0 s : St} {ls : List (Ent × Act)} (h : Inv s0) (hr : run s0 l
 
 theorem inv_of_run {ls : List (Ent × Act)} {s : St} (h : run {} ls = some s) : Inv s := inv_run inv_init h
 
+/-! ### what one step adds to the stream -/
+
+/-- a step appends at most one event; a hidden step none; every event carries the trace number of the acting entity's
+live trace; an entity without a live trace emits nothing -/
+theorem step_out {s : St} {e : Ent} {a : Act} {s' : St} (h : step s e a = some s') :
+    ∃ evs, s'.out = s.out ++ evs ∧ evs.length ≤ 1 ∧ (a.hidden = true → evs = []) ∧
+      (∀ ev ∈ evs, ∃ tr, findTrace s.traces e = some tr ∧ evTrace ev = tr.traceNo) ∧
+      (findTrace s.traces e = none → evs = []) := by
+  rcases step_cases h with hl | ⟨rfl, _, _, rfl⟩ | ⟨rfl, n, _, rfl⟩ | ⟨rfl, _⟩ | ⟨rfl, _⟩ | ⟨tr, text, hf, rfl, rfl⟩
+  · obtain ⟨tr, ph', en', evs, nc', np', hf, hL, rfl⟩ := hl
+    obtain ⟨h1, h2, h3⟩ := local_evTrace hL
+    exact ⟨evs, rfl, h2, h3, fun ev hev => ⟨tr, hf, h1 ev hev⟩, fun hn => by rw [hn] at hf; cases hf⟩
+  · exact ⟨[], by simp, by simp, fun _ => rfl, by simp, fun _ => rfl⟩
+  · exact ⟨[], by simp [moveNewcomer], by simp, fun _ => rfl, by simp, fun _ => rfl⟩
+  · exact ⟨[], by simp, by simp, fun _ => rfl, by simp, fun _ => rfl⟩
+  · exact ⟨[], by simp, by simp, fun _ => rfl, by simp, fun _ => rfl⟩
+  · refine ⟨[.stdout tr.traceNo text], rfl, by simp, by simp [Act.hidden], ?_, fun hn => by rw [hn] at hf; cases hf⟩
+    intro ev hev
+    simp only [List.mem_singleton] at hev
+    subst hev
+    exact ⟨tr, hf, rfl⟩
+
 /-! ### an action only looks at the entity's own trace -/
-
-theorem threadNoOf_traces (s : St) (ts2 : List TraceSt) (th : Nat) :
-    threadNoOf { s with traces := ts2 } th = ((threadNoOf s th).1, { (threadNoOf s th).2 with traces := ts2 }) := by
-  unfold threadNoOf
-  show (match s.threadNos.find? fun e => e.1 = th with | some e => _ | none => _) = _
-  cases s.threadNos.find? fun e => e.1 = th <;> rfl
-
-theorem taskNoOf_traces (s : St) (ts2 : List TraceSt) (tn : Nat) :
-    taskNoOf { s with traces := ts2 } tn = ((taskNoOf s tn).1, { (taskNoOf s tn).2 with traces := ts2 }) := by
-  unfold taskNoOf
-  show (match s.taskCounters.find? fun e => e.1 = tn with | some e => _ | none => _) = _
-  cases s.taskCounters.find? fun e => e.1 = tn <;> rfl
-
-theorem newThreadNo_traces (s : St) (ts2 : List TraceSt) (e : Ent) :
-    newThreadNo { s with traces := ts2 } e = newThreadNo s e := by
-  simp only [newThreadNo, threadNoOf_traces]
-
-theorem newTaskNo_traces (s : St) (ts2 : List TraceSt) (e : Ent) :
-    newTaskNo { s with traces := ts2 } e = newTaskNo s e := by
-  obtain ⟨th, ta⟩ := e
-  cases ta with
-  | none => rfl
-  | some j => simp only [newTaskNo, threadNoOf_traces, taskNoOf_traces]
 
 local macro "congr_close" : tactic =>
   `(tactic| exact ⟨by first | rfl | trivial,
@@ -1231,24 +1630,24 @@ local macro "congr_close" : tactic =>
 theorem step_congr (s : St) (ts2 : List TraceSt) (e : Ent) (a : Act) (hf : findTrace ts2 e = findTrace s.traces e) :
     (step s e a).isSome = (step { s with traces := ts2 } e a).isSome ∧
     ∀ s' s2', step s e a = some s' → step { s with traces := ts2 } e a = some s2' → s'.out = s2'.out := by
+  by_cases hids : a = .drawIds
+  · subst hids
+    refine ⟨?_, ?_⟩
+    · rw [step_drawIds_isSome, step_drawIds_isSome, hf]
+    · intro s' s2' h1 h2
+      obtain ⟨evs1, ho1, _, hh1, _⟩ := step_out h1
+      obtain ⟨evs2, ho2, _, hh2, _⟩ := step_out h2
+      rw [ho1, ho2, hh1 rfl, hh2 rfl]
+  by_cases htr : a = .drawTrace
+  · subst htr
+    simp only [step]
+    cases findNewcomer s.newcomers e <;> congr_close
   cases hf1 : findTrace s.traces e with
   | none =>
     have hf2 : findTrace ({ s with traces := ts2 } : St).traces e = none := hf.trans hf1
     cases a with
-    | enter f l fr ev =>
-      rw [step_enter_none hf1, step_enter_none hf2]
-      refine ⟨rfl, ?_⟩
-      intro s' s2' h1 h2
-      cases h1; cases h2
-      show (addTrace s e).out ++ _ = (addTrace _ e).out ++ _
-      simp only [addTrace_out, addTrace_nextCall, newThreadNo_traces, newTaskNo_traces]
-      rfl
-    | stopRefused =>
-      simp only [step, hf1, hf2]
-      congr_close
-    | write t =>
-      simp only [step, hf1, hf2]
-      congr_close
+    | drawIds => exact absurd rfl hids
+    | drawTrace => exact absurd rfl htr
     | _ =>
       simp only [step, hf1, hf2]
       congr_close
@@ -1256,16 +1655,92 @@ theorem step_congr (s : St) (ts2 : List TraceSt) (e : Ent) (a : Act) (hf : findT
     have hf2 : findTrace ({ s with traces := ts2 } : St).traces e = some tr := hf.trans hf1
     obtain ⟨ent, no, thn, tkn, ph, en⟩ := tr
     cases a with
-    | enter f l fr ev =>
-      rw [step_enter_some hf1, step_enter_some hf2]
-      cases ph <;> congr_close
-    | answer cmd resumes =>
-      simp only [step, hf1, hf2]
-      cases ph <;> cases resumes <;> congr_close
+    | drawIds => exact absurd rfl hids
+    | drawTrace => exact absurd rfl htr
     | _ =>
       simp only [step, hf1, hf2]
       first
         | congr_close
         | (cases ph <;> congr_close)
+
+/-! ### unwinding the open blocks of a trace -/
+
+theorem step_leave {s : St} {e : Ent} {tr : TraceSt} {c : CallInfo} (hf : findTrace s.traces e = some tr)
+    (hph : tr.phase = .call c) :
+    step s e .leave = some { s with traces := setTrace s.traces { tr with phase := .idle },
+                                    out := s.out ++ [.endCall tr.traceNo c.callNo] } := by
+  simp only [step, hf, hph]
+
+theorem step_endLoop {s : St} {e : Ent} {tr : TraceSt} {c : CallInfo} (hf : findTrace s.traces e = some tr)
+    (hph : tr.phase = .cmdloop c ∨ ∃ p, tr.phase = .promptDrawn c p) :
+    step s e .endLoop = some { s with traces := setTrace s.traces { tr with phase := .call c },
+                                      out := s.out ++ [.endCmdloop tr.traceNo c.callNo] } := by
+  rcases hph with hph | ⟨p, hph⟩ <;> simp only [step, hf, hph]
+
+theorem step_answer {s : St} {e : Ent} {tr : TraceSt} {c : CallInfo} {p : Nat} (hf : findTrace s.traces e = some tr)
+    (hph : tr.phase = .prompt c p) (cmd : Nat) :
+    step s e (.answer cmd) = some { s with traces := setTrace s.traces { tr with phase := .cmdloop c },
+                                           out := s.out ++ [.endPrompt tr.traceNo p cmd] } := by
+  simp only [step, hf, hph]
+
+theorem unwind_call {s : St} {e : Ent} {tr : TraceSt} {c : CallInfo} (hf : findTrace s.traces e = some tr)
+    (hph : tr.phase = .call c) :
+    ∃ s', run s [(e, .leave)] = some s' ∧ s'.out = s.out ++ [.endCall tr.traceNo c.callNo] ∧
+      findTrace s'.traces e = some { tr with phase := .idle } := by
+  obtain ⟨_, he, hl⟩ := findTrace_some hf
+  refine ⟨{ s with traces := setTrace s.traces { tr with phase := .idle },
+                   out := s.out ++ [.endCall tr.traceNo c.callNo] }, by simp only [run, step_leave hf hph], rfl, ?_⟩
+  exact findTrace_setTrace_self hf he hl rfl
+
+theorem unwind_loop {s : St} {e : Ent} {tr : TraceSt} {c : CallInfo} (hf : findTrace s.traces e = some tr)
+    (hph : tr.phase = .cmdloop c ∨ ∃ p, tr.phase = .promptDrawn c p) :
+    ∃ s', run s [(e, .endLoop), (e, .leave)] = some s' ∧
+      s'.out = s.out ++ [.endCmdloop tr.traceNo c.callNo, .endCall tr.traceNo c.callNo] ∧
+      findTrace s'.traces e = some { tr with phase := .idle } := by
+  obtain ⟨_, he, hl⟩ := findTrace_some hf
+  have hf1 : findTrace (setTrace s.traces { tr with phase := .call c }) e = some { tr with phase := .call c } :=
+    findTrace_setTrace_self hf he hl rfl
+  obtain ⟨s', hr, ho, hf'⟩ := unwind_call
+    (s := { s with traces := setTrace s.traces { tr with phase := .call c },
+                   out := s.out ++ [.endCmdloop tr.traceNo c.callNo] }) hf1 rfl
+  refine ⟨s', ?_, ?_, hf'⟩
+  · rw [run, step_endLoop hf hph]; exact hr
+  · rw [ho]; simp
+
+theorem unwind_prompt {s : St} {e : Ent} {tr : TraceSt} {c : CallInfo} {p : Nat} (hf : findTrace s.traces e = some tr)
+    (hph : tr.phase = .prompt c p) :
+    ∃ s', run s [(e, .answer 0), (e, .endLoop), (e, .leave)] = some s' ∧
+      s'.out = s.out ++ [.endPrompt tr.traceNo p 0, .endCmdloop tr.traceNo c.callNo, .endCall tr.traceNo c.callNo] ∧
+      findTrace s'.traces e = some { tr with phase := .idle } := by
+  obtain ⟨_, he, hl⟩ := findTrace_some hf
+  have hf1 : findTrace (setTrace s.traces { tr with phase := .cmdloop c }) e = some { tr with phase := .cmdloop c } :=
+    findTrace_setTrace_self hf he hl rfl
+  obtain ⟨s', hr, ho, hf'⟩ := unwind_loop
+    (s := { s with traces := setTrace s.traces { tr with phase := .cmdloop c },
+                   out := s.out ++ [.endPrompt tr.traceNo p 0] }) (c := c) hf1 (Or.inl rfl)
+  refine ⟨s', ?_, ?_, hf'⟩
+  · rw [run, step_answer hf hph]; exact hr
+  · rw [ho]; simp
+
+/-- an exception unwinds every open block, innermost first, one event per step, and leaves the trace idle -/
+theorem unwind_run {s : St} {e : Ent} {tr : TraceSt} (hf : findTrace s.traces e = some tr)
+    (ho : tr.phase.isOpen = true) :
+    ∃ s', run s ((unwindActs tr.phase).map fun a => (e, a)) = some s' ∧
+      s'.out = s.out ++ unwind tr.traceNo tr.phase ∧ findTrace s'.traces e = some { tr with phase := .idle } := by
+  cases hph : tr.phase with
+  | numbered => rw [hph] at ho; cases ho
+  | idle => rw [hph] at ho; cases ho
+  | callDrawn c => rw [hph] at ho; cases ho
+  | call c => exact unwind_call hf hph
+  | cmdloop c => exact unwind_loop hf (Or.inl hph)
+  | promptDrawn c p => exact unwind_loop hf (Or.inr ⟨p, hph⟩)
+  | prompt c p => exact unwind_prompt hf hph
+
+/-- a concrete run with a given observation exists -/
+theorem exists_run_of_map {α : Type} {f : St → α} {ls : List (Ent × Act)} {v : α}
+    (h : (run {} ls).map f = some v) : ∃ s, run {} ls = some s ∧ f s = v := by
+  cases hr : run {} ls with
+  | none => rw [hr] at h; cases h
+  | some s => rw [hr] at h; exact ⟨s, rfl, by simpa using h⟩
 
 end NLV.Trace
